@@ -1,7 +1,3660 @@
-//! C23: not implemented yet.
+//! C23: decoders of stored bytes reject corruption without crashing.
+//!
+//! Every decoder is run on valid encodings (made with the real encoders) that were mutated
+//! (field edits, bit flips, 0x00/0xFF runs, truncation, appends, splices) and on raw random bytes.
+//! Monitor: catch_unwind + panic hook (signature = decoder + panic site), harness-side step bounds
+//! for cursor loops (`no_progress`), and -- natively -- a parent/child split: cases run in re-exec'd
+//! child processes (8 MiB worker stack, RLIMIT_AS) that publish (case index, current op, heartbeat)
+//! in a shared-memory black box, so that an abort (allocation failure, stack overflow, double
+//! panic), a fatal signal or a hang is attributed to the exact case and op by the parent.
+//! Cases are a pure function of (seed, unit, index): `tv C23 --seed S child <unit> <idx> 1 <dir>`
+//! replays one.  Under Miri only the in-memory units run, in-process, ~100 cases each.
+#![allow(unused_variables, unused_mut, unused_assignments)]
+use crate::memstore::{MemStore, PAGE};
+use crate::report::{self, Ctx};
+use crate::rng::{fnv, Rng};
 use crate::Args;
+use serde_json::{json, Value};
+use std::cell::RefCell;
+use std::collections::{BTreeMap, HashMap, HashSet};
+use std::io::Write as _;
+use std::path::{Path, PathBuf};
 
-pub fn run(_a: &Args) -> i32 {
-    println!("INCONCLUSIVE property=C23 reason=check not implemented yet");
-    2
+// ------------------------------------------------------------------------------------------
+// panic capture: site = panic location if it is in /repo, else the first /repo frame of a backtrace
+// ------------------------------------------------------------------------------------------
+thread_local! {
+    static REPO_FRAME: RefCell<Option<String>> = RefCell::new(None);
+}
+/// black box of this process (if any), so the panic hook can tell the parent that it is busy
+/// symbolising a backtrace (slow on a loaded machine, must not be mistaken for a hang)
+static BB_PTR: std::sync::atomic::AtomicPtr<u8> = std::sync::atomic::AtomicPtr::new(std::ptr::null_mut());
+
+fn bb_symbolizing(on: bool) {
+    let p = BB_PTR.load(std::sync::atomic::Ordering::Relaxed);
+    if !p.is_null() {
+        unsafe {
+            std::ptr::write_volatile(p.add(24), on as u8);
+            let hb = p.add(8) as *mut u64;
+            std::ptr::write_volatile(hb, std::ptr::read_volatile(hb).wrapping_add(1));
+        }
+    }
+}
+
+fn first_repo_frame() -> Option<String> {
+    if cfg!(miri) {
+        return None;
+    }
+    bb_symbolizing(true);
+    let bt = std::backtrace::Backtrace::force_capture().to_string();
+    bb_symbolizing(false);
+    for line in bt.lines() {
+        let l = line.trim();
+        if let Some(rest) = l.strip_prefix("at ") {
+            if rest.starts_with("/repo/src/") {
+                // "/repo/src/x.rs:12:5" -> "src/x.rs:12"
+                let mut parts = rest["/repo/".len()..].split(':');
+                let f = parts.next().unwrap_or("");
+                let ln = parts.next().unwrap_or("");
+                return Some(format!("{}:{}", f, ln));
+            }
+        }
+    }
+    None
+}
+
+fn install_hook() {
+    use std::sync::Once;
+    static ONCE: Once = Once::new();
+    ONCE.call_once(|| {
+        report::install_panic_hook();
+        let prev = std::panic::take_hook();
+        std::panic::set_hook(Box::new(move |info| {
+            prev(info);
+            let file = info.location().map(|l| l.file().to_string()).unwrap_or_default();
+            let in_repo = file.starts_with("/repo/") || file.starts_with("src/");
+            let fr = if in_repo { None } else { first_repo_frame() };
+            REPO_FRAME.with(|p| *p.borrow_mut() = fr);
+        }));
+    });
+}
+
+/// run `f`; on panic return (site, message)
+fn guard<T>(f: impl FnOnce() -> T) -> Result<T, (String, String)> {
+    install_hook();
+    REPO_FRAME.with(|p| p.borrow_mut().take());
+    match report::catch(f) {
+        Ok(v) => Ok(v),
+        Err(msg) => {
+            let raw = report::panic_site(&msg);
+            let site = if let Some(s) = raw.strip_prefix("/repo/") {
+                s.to_string()
+            } else if raw.starts_with("src/") {
+                raw.clone()
+            } else {
+                match REPO_FRAME.with(|p| p.borrow_mut().take()) {
+                    Some(fr) => fr,
+                    None => {
+                        // location outside the repo and no symbolised frame: keep the std location (basename)
+                        let b = raw.rsplit('/').next().unwrap_or(&raw).to_string();
+                        format!("std:{}", b)
+                    }
+                }
+            };
+            Err((site, msg))
+        }
+    }
+}
+
+// ------------------------------------------------------------------------------------------
+// cases = base (named blobs made by the real encoders) + edits
+// ------------------------------------------------------------------------------------------
+#[derive(Clone)]
+pub struct Blob {
+    pub name: String,
+    pub data: Vec<u8>,
+}
+
+#[derive(Clone, Copy)]
+pub struct Field {
+    pub blob: u16,
+    pub off: u32,
+    pub width: u8,
+    /// >0: the field is a page pointer; interesting values include 0..=ptr_max
+    pub ptr_max: u32,
+}
+
+#[derive(Clone, Debug)]
+pub enum Edit {
+    Set { blob: usize, off: usize, bytes: Vec<u8> },
+    Fill { blob: usize, off: usize, len: usize, byte: u8 },
+    Flip { blob: usize, off: usize, bit: u8 },
+    Trunc { blob: usize, len: usize },
+    Append { blob: usize, bytes: Vec<u8> },
+    Copy { blob: usize, src: usize, dst: usize, len: usize },
+}
+
+impl Edit {
+    fn kind(&self) -> &'static str {
+        match self {
+            Edit::Set { .. } => "set",
+            Edit::Fill { byte: 0, .. } => "fill00",
+            Edit::Fill { .. } => "fillff",
+            Edit::Flip { .. } => "flip",
+            Edit::Trunc { .. } => "trunc",
+            Edit::Append { .. } => "append",
+            Edit::Copy { .. } => "splice",
+        }
+    }
+    fn apply(&self, blobs: &mut [Blob]) {
+        match self {
+            Edit::Set { blob, off, bytes } => {
+                let d = &mut blobs[*blob].data;
+                if *off < d.len() {
+                    let n = bytes.len().min(d.len() - off);
+                    d[*off..off + n].copy_from_slice(&bytes[..n]);
+                }
+            }
+            Edit::Fill { blob, off, len, byte } => {
+                let d = &mut blobs[*blob].data;
+                if *off < d.len() {
+                    let n = (*len).min(d.len() - off);
+                    for b in &mut d[*off..off + n] {
+                        *b = *byte;
+                    }
+                }
+            }
+            Edit::Flip { blob, off, bit } => {
+                let d = &mut blobs[*blob].data;
+                if *off < d.len() {
+                    d[*off] ^= 1 << (bit & 7);
+                }
+            }
+            Edit::Trunc { blob, len } => {
+                let d = &mut blobs[*blob].data;
+                if *len < d.len() {
+                    d.truncate(*len);
+                }
+            }
+            Edit::Append { blob, bytes } => blobs[*blob].data.extend_from_slice(bytes),
+            Edit::Copy { blob, src, dst, len } => {
+                let d = &mut blobs[*blob].data;
+                if *src < d.len() && *dst < d.len() {
+                    let n = (*len).min(d.len() - src).min(d.len() - dst);
+                    d.copy_within(*src..src + n, *dst);
+                }
+            }
+        }
+    }
+    fn describe(&self, blobs: &[Blob]) -> Value {
+        let nm = |b: &usize| blobs.get(*b).map(|x| x.name.clone()).unwrap_or_default();
+        match self {
+            Edit::Set { blob, off, bytes } => json!({"op": "set", "blob": nm(blob), "off": off, "bytes_hex": hex(bytes, 64)}),
+            Edit::Fill { blob, off, len, byte } => json!({"op": "fill", "blob": nm(blob), "off": off, "len": len, "byte": byte}),
+            Edit::Flip { blob, off, bit } => json!({"op": "flip_bit", "blob": nm(blob), "off": off, "bit": bit}),
+            Edit::Trunc { blob, len } => json!({"op": "truncate", "blob": nm(blob), "len": len}),
+            Edit::Append { blob, bytes } => json!({"op": "append", "blob": nm(blob), "n": bytes.len(), "bytes_hex": hex(bytes, 64)}),
+            Edit::Copy { blob, src, dst, len } => json!({"op": "copy_within", "blob": nm(blob), "src": src, "dst": dst, "len": len}),
+        }
+    }
+}
+
+pub fn hex(b: &[u8], max: usize) -> String {
+    let mut s = String::with_capacity(b.len().min(max) * 2 + 8);
+    for x in b.iter().take(max) {
+        s.push_str(&format!("{:02x}", x));
+    }
+    if b.len() > max {
+        s.push_str(&format!("..(+{}B)", b.len() - max));
+    }
+    s
+}
+
+pub struct Base {
+    pub name: String,
+    pub blobs: Vec<Blob>,
+    /// groups of structural fields (a group is chosen uniformly, then a field)
+    pub fields: Vec<Vec<Field>>,
+    pub meta: Meta,
+}
+
+#[derive(Clone)]
+pub struct Case {
+    pub base: usize,
+    /// raw input replacing blob 0 of the base (random bytes / crafted), before edits
+    pub raw: Option<Vec<u8>>,
+    pub edits: Vec<Edit>,
+    pub seed: u64,
+    pub tag: &'static str,
+}
+
+impl Case {
+    fn materialize(&self, bases: &[Base]) -> Vec<Blob> {
+        let mut blobs = bases[self.base].blobs.clone();
+        if let Some(r) = &self.raw {
+            blobs[0].data = r.clone();
+        }
+        for e in &self.edits {
+            e.apply(&mut blobs);
+        }
+        blobs
+    }
+    fn describe(&self, unit: &str, idx: u64, bases: &[Base], seed: u64, tier: &str) -> Value {
+        let b = &bases[self.base];
+        let blobs = self.materialize(bases);
+        let mut v = json!({
+            "unit": unit, "case": idx, "base": b.name, "kind": self.tag,
+            "edits": self.edits.iter().map(|e| e.describe(&b.blobs)).collect::<Vec<_>>(),
+            "replay": format!("tv C23 --tier {} --seed {} child {} {} 1 /verif/scratch/c23-replay", tier, seed, unit, idx),
+        });
+        if self.raw.is_some() || blobs.iter().map(|x| x.data.len()).sum::<usize>() <= 512 {
+            v["input_hex"] = json!(blobs.iter().map(|x| (x.name.clone(), hex(&x.data, 512))).collect::<Vec<_>>());
+        }
+        if !self.edits.is_empty() && self.raw.is_none() {
+            // show the original bytes under each edit, so the repro reads "these bytes -> those bytes"
+            let mut orig = vec![];
+            for e in &self.edits {
+                if let Edit::Set { blob, off, bytes } = e {
+                    let d = &b.blobs[*blob].data;
+                    if *off < d.len() {
+                        let n = bytes.len().min(d.len() - off);
+                        orig.push(json!({"blob": b.blobs[*blob].name, "off": off, "orig_hex": hex(&d[*off..off + n], 64)}));
+                    }
+                }
+            }
+            v["original_bytes"] = json!(orig);
+        }
+        v
+    }
+}
+
+fn interesting(rng: &mut Rng, width: u8, cur: u64, ptr_max: u32, blob_len: usize) -> u64 {
+    let max = if width >= 8 { u64::MAX } else { (1u64 << (8 * width as u32)) - 1 };
+    if ptr_max > 0 && rng.chance(1, 2) {
+        return rng.below(ptr_max as u64 + 2) & max;
+    }
+    let v = match rng.below(14) {
+        0 => 0,
+        1 => 1,
+        2 => max,
+        3 => max - 1,
+        4 => max >> 1,
+        5 => (max >> 1) + 1,
+        6 => cur.wrapping_add(1),
+        7 => cur.wrapping_sub(1),
+        8 => cur.wrapping_add(rng.below(64)),
+        9 => cur.wrapping_sub(rng.below(64)),
+        10 => *rng.pick(&[16384u64, 16383, 16385, 16376, 16368, 128, 24, 16, 8191, 8192, 32768, 65535, 2045, 2046, 255, 256]),
+        11 => (blob_len as i64 + rng.range(-2, 2)) as u64,
+        12 => rng.next() >> rng.below(64),
+        _ => rng.next(),
+    };
+    v & max
+}
+
+fn read_le(d: &[u8], off: usize, width: usize) -> u64 {
+    let mut v = 0u64;
+    for i in 0..width.min(8) {
+        if off + i < d.len() {
+            v |= (d[off + i] as u64) << (8 * i);
+        }
+    }
+    v
+}
+
+/// 1..3 mutations of a base
+fn mutate(rng: &mut Rng, base: &Base, page_blobs: bool, focus: Option<usize>) -> Vec<Edit> {
+    let mut edits = vec![];
+    let n = 1 + (rng.below(10) >= 6) as usize + (rng.below(10) >= 8) as usize;
+    for _ in 0..n {
+        let nb = base.blobs.len();
+        // choose a blob: prefer non-empty ones
+        let mut blob = rng.below(nb as u64) as usize;
+        for _ in 0..4 {
+            if !base.blobs[blob].data.is_empty() {
+                break;
+            }
+            blob = rng.below(nb as u64) as usize;
+        }
+        if let Some(f) = focus {
+            blob = f;
+        }
+        let len = base.blobs[blob].data.len();
+        let d = &base.blobs[blob].data;
+        let pos = |rng: &mut Rng| -> usize {
+            if len == 0 {
+                0
+            } else if rng.chance(1, 3) {
+                rng.below(len.min(64) as u64) as usize
+            } else if page_blobs && rng.chance(1, 2) {
+                // near the start of a page
+                let pg = rng.below((len / PAGE).max(1) as u64) as usize;
+                (pg * PAGE + rng.below(160) as usize).min(len - 1)
+            } else {
+                rng.below(len as u64) as usize
+            }
+        };
+        let k = rng.below(100);
+        let e = if k < 40 && !base.fields.is_empty() {
+            let g = rng.pick(&base.fields);
+            if g.is_empty() {
+                continue;
+            }
+            let f = *rng.pick(g);
+            let fd = &base.blobs[f.blob as usize].data;
+            let cur = read_le(fd, f.off as usize, f.width as usize);
+            let v = interesting(rng, f.width, cur, f.ptr_max, fd.len());
+            Edit::Set { blob: f.blob as usize, off: f.off as usize, bytes: v.to_le_bytes()[..f.width as usize].to_vec() }
+        } else if k < 50 {
+            // aligned integer edit at an arbitrary place
+            let w = *rng.pick(&[1usize, 2, 2, 4, 4, 8]);
+            let off = pos(rng) / w * w;
+            let cur = read_le(d, off, w);
+            let v = interesting(rng, w as u8, cur, 0, len);
+            Edit::Set { blob, off, bytes: v.to_le_bytes()[..w].to_vec() }
+        } else if k < 62 {
+            Edit::Flip { blob, off: pos(rng), bit: rng.below(8) as u8 }
+        } else if k < 70 {
+            let n = rng.usize(1, 8);
+            Edit::Set { blob, off: pos(rng), bytes: rng.bytes(n) }
+        } else if k < 80 {
+            let l = if page_blobs && rng.chance(1, 4) { PAGE } else { rng.usize(1, 64) };
+            let off = if l == PAGE { pos(rng) / PAGE * PAGE } else { pos(rng) };
+            Edit::Fill { blob, off, len: l, byte: if rng.chance(1, 2) { 0 } else { 0xFF } }
+        } else if k < 90 {
+            let nl = match rng.below(6) {
+                0 => len.saturating_sub(1),
+                1 => len.saturating_sub(rng.usize(1, 9)),
+                2 => rng.below(9.min(len as u64 + 1)) as usize,
+                3 if page_blobs => (len / PAGE).saturating_sub(rng.usize(0, 2)) * PAGE + if rng.chance(1, 2) { 0 } else { rng.usize(1, PAGE - 1) },
+                4 => len / 2,
+                _ => rng.below(len as u64 + 1) as usize,
+            };
+            Edit::Trunc { blob, len: nl.min(len) }
+        } else if k < 94 {
+            let n = if page_blobs && rng.chance(1, 2) { PAGE } else { rng.usize(1, 16) };
+            let bytes = if rng.chance(1, 2) { vec![0u8; n] } else { rng.bytes(n) };
+            Edit::Append { blob, bytes }
+        } else {
+            if page_blobs && len >= 2 * PAGE {
+                let np = len / PAGE;
+                let s = rng.below(np as u64) as usize;
+                let t = rng.below(np as u64) as usize;
+                Edit::Copy { blob, src: s * PAGE, dst: t * PAGE, len: PAGE }
+            } else {
+                Edit::Copy { blob, src: pos(rng), dst: pos(rng), len: rng.usize(1, 32) }
+            }
+        };
+        edits.push(e);
+    }
+    edits
+}
+
+fn random_bytes_input(rng: &mut Rng, page_sized: bool) -> Vec<u8> {
+    let len = match rng.below(10) {
+        0 => rng.usize(0, 4),
+        1..=3 => rng.usize(0, 24),
+        4..=6 => rng.usize(8, 200),
+        7 => rng.usize(100, 3000),
+        _ => {
+            if page_sized {
+                PAGE
+            } else {
+                rng.usize(0, 64)
+            }
+        }
+    };
+    let mut v = rng.bytes(len);
+    // low-entropy variants: small values are far more likely to pass length checks
+    match rng.below(4) {
+        0 => {
+            for b in v.iter_mut() {
+                *b &= 0x0F;
+            }
+        }
+        1 => {
+            for b in v.iter_mut() {
+                if *b > 0x40 {
+                    *b = 0;
+                }
+            }
+        }
+        _ => {}
+    }
+    v
+}
+
+// ------------------------------------------------------------------------------------------
+// per-base metadata
+// ------------------------------------------------------------------------------------------
+pub enum Meta {
+    None,
+    Record { schema: turdb::records::Schema, types: Vec<turdb::records::DataType>, comp_fields: usize },
+    Jsonb { keys: Vec<String> },
+    Composite { fields: usize },
+    Header { kind: &'static str },
+    Leaf { probes: Vec<Vec<u8>> },
+    Interior { probes: Vec<Vec<u8>> },
+    Tree { root: u32, probes: Vec<Vec<u8>> },
+    Hnsw { kind: &'static str, dims: usize },
+    Wal { fixable: bool },
+    Db { wal: bool, focus: usize },
+}
+
+// ------------------------------------------------------------------------------------------
+// black box: shared file mapping the parent can read after the child died
+// layout: [0..8) case index  [8..16) heartbeat  [16..24) cases finished  [24] symbolising flag
+// [80..88) cases whose counters were flushed to the result file  [32..80) op label (NUL padded)
+// ------------------------------------------------------------------------------------------
+pub struct BlackBox {
+    ptr: *mut u8,
+}
+unsafe impl Send for BlackBox {}
+const BB_SIZE: usize = 4096;
+
+impl BlackBox {
+    #[cfg(not(miri))]
+    fn open(path: &Path) -> Option<BlackBox> {
+        use std::os::unix::io::AsRawFd;
+        let f = std::fs::OpenOptions::new().read(true).write(true).create(true).open(path).ok()?;
+        f.set_len(BB_SIZE as u64).ok()?;
+        let p = unsafe { libc::mmap(std::ptr::null_mut(), BB_SIZE, libc::PROT_READ | libc::PROT_WRITE, libc::MAP_SHARED, f.as_raw_fd(), 0) };
+        if p == libc::MAP_FAILED {
+            return None;
+        }
+        BB_PTR.store(p as *mut u8, std::sync::atomic::Ordering::Relaxed);
+        Some(BlackBox { ptr: p as *mut u8 })
+    }
+    #[cfg(miri)]
+    fn open(_path: &Path) -> Option<BlackBox> {
+        None
+    }
+    fn begin(&self, idx: u64) {
+        unsafe {
+            std::ptr::write_volatile(self.ptr as *mut u64, idx);
+            let hb = self.ptr.add(8) as *mut u64;
+            std::ptr::write_volatile(hb, std::ptr::read_volatile(hb).wrapping_add(1));
+        }
+    }
+    fn finished(&self, n: u64) {
+        unsafe { std::ptr::write_volatile(self.ptr.add(16) as *mut u64, n) }
+    }
+    fn flushed(&self, n: u64) {
+        unsafe { std::ptr::write_volatile(self.ptr.add(80) as *mut u64, n) }
+    }
+    fn op(&self, label: &str) {
+        unsafe {
+            let hb = self.ptr.add(8) as *mut u64;
+            std::ptr::write_volatile(hb, std::ptr::read_volatile(hb).wrapping_add(1));
+            let dst = self.ptr.add(32);
+            let b = label.as_bytes();
+            let n = b.len().min(47);
+            std::ptr::copy_nonoverlapping(b.as_ptr(), dst, n);
+            std::ptr::write_volatile(dst.add(n), 0);
+        }
+    }
+}
+
+/// parent side: (case idx, heartbeat, finished, label, symbolising, flushed)
+fn read_blackbox(path: &Path) -> Option<(u64, u64, u64, String, bool, u64)> {
+    let d = std::fs::read(path).ok()?;
+    if d.len() < 96 {
+        return None;
+    }
+    let idx = u64::from_le_bytes(d[0..8].try_into().ok()?);
+    let hb = u64::from_le_bytes(d[8..16].try_into().ok()?);
+    let fin = u64::from_le_bytes(d[16..24].try_into().ok()?);
+    let lab = &d[32..80];
+    let n = lab.iter().position(|b| *b == 0).unwrap_or(lab.len());
+    let flushed = u64::from_le_bytes(d[80..88].try_into().ok()?);
+    Some((idx, hb, fin, String::from_utf8_lossy(&lab[..n]).to_string(), d[24] != 0, flushed))
+}
+
+// ------------------------------------------------------------------------------------------
+// recorder: collects outcomes of one job (child process or in-process)
+// ------------------------------------------------------------------------------------------
+pub struct Rec {
+    pub unit: String,
+    bb: Option<BlackBox>,
+    out: Option<std::fs::File>,
+    /// lines kept in memory when there is no result file (in-process mode)
+    pub lines: Vec<String>,
+    evals: u64,
+    ops: u64,
+    ok: u64,
+    err: u64,
+    panics: u64,
+    new_nt: Vec<u64>,
+    seen_nt: HashSet<u64>,
+    sig_delta: BTreeMap<String, u64>,
+    sig_examples: HashMap<String, u32>,
+    ctr: BTreeMap<String, u64>,
+    // per case
+    case_hash: u64,
+    case_sigs: Vec<(String, String, Value)>, // (sig, assertion, detail) raised by the current case
+    quiet: bool,
+}
+
+impl Rec {
+    fn new(unit: &str, bb: Option<BlackBox>, out: Option<std::fs::File>) -> Rec {
+        Rec {
+            unit: unit.to_string(),
+            bb,
+            out,
+            lines: vec![],
+            evals: 0,
+            ops: 0,
+            ok: 0,
+            err: 0,
+            panics: 0,
+            new_nt: vec![],
+            seen_nt: HashSet::new(),
+            sig_delta: BTreeMap::new(),
+            sig_examples: HashMap::new(),
+            ctr: BTreeMap::new(),
+            case_hash: 0,
+            case_sigs: vec![],
+            quiet: false,
+        }
+    }
+    fn emit(&mut self, v: Value) {
+        let s = v.to_string();
+        match &mut self.out {
+            Some(f) => {
+                let _ = f.write_all(s.as_bytes());
+                let _ = f.write_all(b"\n");
+            }
+            None => self.lines.push(s),
+        }
+    }
+    fn count(&mut self, k: &str, n: u64) {
+        *self.ctr.entry(k.to_string()).or_insert(0) += n;
+    }
+    fn mix(&mut self, label: &str, class: u8) {
+        self.case_hash = (self.case_hash ^ fnv(label.as_bytes()) ^ class as u64).wrapping_mul(0x100000001b3).rotate_left(7);
+    }
+    fn label(&mut self, label: &str) {
+        self.ops += 1;
+        if let Some(bb) = &self.bb {
+            bb.op(label);
+        }
+    }
+    /// run one opaque call; a panic becomes a violation "C23/<decoder>/panic/<site>"
+    pub fn run<T>(&mut self, label: &'static str, f: impl FnOnce() -> T) -> Option<T> {
+        self.label(label);
+        match guard(f) {
+            Ok(v) => {
+                self.mix(label, 0);
+                Some(v)
+            }
+            Err((site, msg)) => {
+                self.panics += 1;
+                self.mix(label, 2);
+                let dec = label.split('.').next().unwrap_or(label);
+                let sig = format!("C23/{}/panic/{}", dec, site);
+                self.raise(sig, "no_panic", json!({"op": label, "panic": msg}));
+                None
+            }
+        }
+    }
+    /// same for calls returning Result: counts Ok/Err
+    pub fn run_res<T, E>(&mut self, label: &'static str, f: impl FnOnce() -> Result<T, E>) -> Option<T> {
+        match self.run(label, f) {
+            Some(Ok(v)) => {
+                self.ok += 1;
+                Some(v)
+            }
+            Some(Err(_)) => {
+                self.err += 1;
+                self.mix(label, 1);
+                None
+            }
+            None => None,
+        }
+    }
+    pub fn raise(&mut self, sig: String, assertion: &str, detail: Value) {
+        if self.case_sigs.iter().any(|(s, _, _)| *s == sig) {
+            return;
+        }
+        self.case_sigs.push((sig, assertion.to_string(), detail));
+    }
+    fn begin_case(&mut self, idx: u64) {
+        self.case_hash = 0;
+        self.case_sigs.clear();
+        if let Some(bb) = &self.bb {
+            bb.begin(idx);
+        }
+    }
+    fn flush_progress(&mut self) {
+        let nt = std::mem::take(&mut self.new_nt);
+        let sd = std::mem::take(&mut self.sig_delta);
+        let ctr = std::mem::take(&mut self.ctr);
+        let v = json!({"t": "p", "evals": self.evals, "ops": self.ops, "ok": self.ok, "err": self.err, "panics": self.panics, "nt": nt, "sigc": sd, "ctr": ctr});
+        self.evals = 0;
+        self.ops = 0;
+        self.ok = 0;
+        self.err = 0;
+        self.panics = 0;
+        self.emit(v);
+    }
+}
+
+// ------------------------------------------------------------------------------------------
+// exact-size aligned buffer: the slice handed to a decoder ends where the allocation ends,
+// so an over-read in an `unsafe` path is visible to Miri / ASan; `shift` varies the alignment
+// ------------------------------------------------------------------------------------------
+struct ExactBuf {
+    ptr: *mut u8,
+    layout: Option<std::alloc::Layout>,
+    shift: usize,
+    len: usize,
+}
+impl ExactBuf {
+    fn new(data: &[u8], shift: usize) -> ExactBuf {
+        let total = data.len() + shift;
+        if total == 0 {
+            return ExactBuf { ptr: std::ptr::NonNull::<u32>::dangling().as_ptr() as *mut u8, layout: None, shift: 0, len: 0 };
+        }
+        let layout = std::alloc::Layout::from_size_align(total, 8).unwrap();
+        let ptr = unsafe { std::alloc::alloc_zeroed(layout) };
+        assert!(!ptr.is_null());
+        unsafe { std::ptr::copy_nonoverlapping(data.as_ptr(), ptr.add(shift), data.len()) };
+        ExactBuf { ptr, layout: Some(layout), shift, len: data.len() }
+    }
+    fn slice(&self) -> &[u8] {
+        unsafe { std::slice::from_raw_parts(self.ptr.add(self.shift), self.len) }
+    }
+}
+impl Drop for ExactBuf {
+    fn drop(&mut self) {
+        if let Some(l) = self.layout {
+            unsafe { std::alloc::dealloc(self.ptr, l) }
+        }
+    }
+}
+
+// ------------------------------------------------------------------------------------------
+// records / jsonb / arrays / composites
+// ------------------------------------------------------------------------------------------
+use turdb::records::{ArrayBuilder, ArrayView, CompositeView, DataType, JsonbBuilder, JsonbBuilderValue, JsonbValue, JsonbView, RecordBuilder, RecordView};
+
+const ALL_TYPES: [DataType; 33] = [
+    DataType::Bool, DataType::Int2, DataType::Int4, DataType::Int8, DataType::Float4, DataType::Float8, DataType::Date, DataType::Time,
+    DataType::Timestamp, DataType::TimestampTz, DataType::Uuid, DataType::MacAddr, DataType::Inet4, DataType::Inet6, DataType::Text, DataType::Blob,
+    DataType::Vector, DataType::Jsonb, DataType::Varchar, DataType::Char, DataType::Decimal, DataType::Interval, DataType::Int4Range, DataType::Int8Range,
+    DataType::DateRange, DataType::TimestampRange, DataType::Enum, DataType::Point, DataType::Box, DataType::Circle, DataType::Composite, DataType::Array,
+    DataType::Bool,
+];
+
+fn rand_text(rng: &mut Rng, max: usize) -> String {
+    let n = rng.usize(0, max);
+    (0..n).map(|_| *rng.pick(&['a', 'b', 'z', '0', ' ', 'é', '"', '\\', 'ü', '\n', 'k'])).collect()
+}
+
+fn gen_jsonb_value(rng: &mut Rng, depth: u32) -> JsonbBuilderValue {
+    let k = if depth >= 3 { rng.below(4) } else { rng.below(6) };
+    match k {
+        0 => JsonbBuilderValue::Null,
+        1 => JsonbBuilderValue::Bool(rng.chance(1, 2)),
+        2 => JsonbBuilderValue::Number(if rng.chance(1, 2) { rng.range(-1000, 1000) as f64 } else { rng.f64() * 1e6 }),
+        3 => JsonbBuilderValue::String(rand_text(rng, 12)),
+        4 => JsonbBuilderValue::Array((0..rng.usize(0, 5)).map(|_| gen_jsonb_value(rng, depth + 1)).collect()),
+        _ => JsonbBuilderValue::Object((0..rng.usize(0, 5)).map(|i| (format!("{}{}", *rng.pick(&["a", "b", "key", "x"]), i), gen_jsonb_value(rng, depth + 1))).collect()),
+    }
+}
+
+fn gen_jsonb(rng: &mut Rng) -> (Vec<u8>, Vec<String>) {
+    let mut keys = vec!["a".to_string(), "a0".to_string()];
+    let bytes = match rng.below(6) {
+        0 => JsonbBuilder::new_null().build(),
+        1 => JsonbBuilder::new_number(rng.f64() * 100.0).build(),
+        2 => JsonbBuilder::new_string(rand_text(rng, 20)).build(),
+        3 => {
+            let mut b = JsonbBuilder::new_array();
+            for _ in 0..rng.usize(0, 8) {
+                b.push(gen_jsonb_value(rng, 1));
+            }
+            b.build()
+        }
+        _ => {
+            let mut b = JsonbBuilder::new_object();
+            for i in 0..rng.usize(0, 8) {
+                let k = format!("{}{}", *rng.pick(&["a", "b", "key", "zz"]), i);
+                keys.push(k.clone());
+                b.set(k, gen_jsonb_value(rng, 1));
+            }
+            b.build()
+        }
+    };
+    (bytes, keys)
+}
+
+fn gen_array(rng: &mut Rng) -> Vec<u8> {
+    let t = *rng.pick(&[DataType::Int2, DataType::Int4, DataType::Int8, DataType::Float4, DataType::Float8, DataType::Bool, DataType::Text, DataType::Blob]);
+    let mut b = ArrayBuilder::new(t);
+    let n = rng.usize(0, 20);
+    for _ in 0..n {
+        if rng.chance(1, 6) {
+            b.push_null();
+            continue;
+        }
+        match t {
+            DataType::Int2 => b.push_int2(rng.next() as i16),
+            DataType::Int4 => b.push_int4(rng.next() as i32),
+            DataType::Int8 => b.push_int8(rng.next() as i64),
+            DataType::Float4 => b.push_float4(rng.f64() as f32),
+            DataType::Float8 => b.push_float8(rng.f64()),
+            DataType::Bool => b.push_bool(rng.chance(1, 2)),
+            DataType::Text => b.push_text(&rand_text(rng, 10)),
+            _ => {
+                let l = rng.usize(0, 10);
+                b.push_blob(&rng.bytes(l))
+            }
+        }
+    }
+    b.build()
+}
+
+fn col_def(i: usize, t: DataType) -> turdb::records::ColumnDef {
+    match t {
+        DataType::Char => turdb::records::ColumnDef::new_char(format!("c{}", i), 8),
+        DataType::Varchar => turdb::records::ColumnDef::new_varchar(format!("c{}", i), Some(40)),
+        _ => turdb::records::ColumnDef::new(format!("c{}", i), t),
+    }
+}
+
+fn gen_record(rng: &mut Rng, types: &[DataType], depth: u32) -> (turdb::records::Schema, Vec<u8>) {
+    let schema = turdb::records::Schema::new(types.iter().enumerate().map(|(i, t)| col_def(i, *t)).collect());
+    let bytes = {
+        let mut b = RecordBuilder::new(&schema);
+        for (i, t) in types.iter().enumerate() {
+            if rng.chance(1, 8) {
+                b.set_null(i);
+                continue;
+            }
+            let r = match t {
+                DataType::Bool => b.set_bool(i, rng.chance(1, 2)),
+                DataType::Int2 => b.set_int2(i, rng.next() as i16),
+                DataType::Int4 => b.set_int4(i, rng.next() as i32),
+                DataType::Int8 => b.set_int8(i, rng.next() as i64),
+                DataType::Float4 => b.set_float4(i, rng.f64() as f32),
+                DataType::Float8 => b.set_float8(i, rng.f64()),
+                DataType::Date => b.set_date(i, rng.next() as i32),
+                DataType::Time => b.set_time(i, rng.next() as i64),
+                DataType::Timestamp => b.set_timestamp(i, rng.next() as i64),
+                DataType::TimestampTz => b.set_timestamptz(i, rng.next() as i64, rng.range(-50000, 50000) as i32),
+                DataType::Uuid => {
+                    let u: [u8; 16] = rng.bytes(16).try_into().unwrap();
+                    b.set_uuid(i, &u)
+                }
+                DataType::MacAddr => {
+                    let u: [u8; 6] = rng.bytes(6).try_into().unwrap();
+                    b.set_macaddr(i, &u)
+                }
+                DataType::Inet4 => {
+                    let u: [u8; 4] = rng.bytes(4).try_into().unwrap();
+                    b.set_inet4(i, &u)
+                }
+                DataType::Inet6 => {
+                    let u: [u8; 16] = rng.bytes(16).try_into().unwrap();
+                    b.set_inet6(i, &u)
+                }
+                DataType::Text => b.set_text(i, &rand_text(rng, 24)),
+                DataType::Varchar => b.set_varchar(i, &rand_text(rng, 10)),
+                DataType::Char => b.set_char(i, "abc"),
+                DataType::Blob => {
+                    let l = rng.usize(0, 24);
+                    b.set_blob(i, &rng.bytes(l))
+                }
+                DataType::Vector => {
+                    let n = rng.usize(0, 9);
+                    let v: Vec<f32> = (0..n).map(|_| rng.f64() as f32).collect();
+                    b.set_vector(i, &v)
+                }
+                DataType::Jsonb => {
+                    let (bytes, _) = gen_jsonb(rng);
+                    b.set_jsonb_bytes(i, &bytes)
+                }
+                DataType::Decimal => b.set_decimal(i, rng.next() as i128, rng.range(0, 10) as i16, rng.chance(1, 2)),
+                DataType::Interval => b.set_interval(i, rng.next() as i64, rng.next() as i32, rng.next() as i32),
+                DataType::Int4Range | DataType::DateRange => {
+                    if rng.chance(1, 5) {
+                        b.set_int4_range_empty(i)
+                    } else {
+                        let lo = if rng.chance(1, 4) { None } else { Some(rng.next() as i32) };
+                        let hi = if rng.chance(1, 4) { None } else { Some(rng.next() as i32) };
+                        b.set_int4_range(i, lo, hi, rng.chance(1, 2), rng.chance(1, 2))
+                    }
+                }
+                DataType::Int8Range | DataType::TimestampRange => {
+                    if rng.chance(1, 5) {
+                        b.set_int8_range_empty(i)
+                    } else {
+                        let lo = if rng.chance(1, 4) { None } else { Some(rng.next() as i64) };
+                        let hi = if rng.chance(1, 4) { None } else { Some(rng.next() as i64) };
+                        b.set_int8_range(i, lo, hi, rng.chance(1, 2), rng.chance(1, 2))
+                    }
+                }
+                DataType::Enum => b.set_enum(i, rng.next() as u16, rng.next() as u16),
+                DataType::Point => b.set_point(i, rng.f64(), rng.f64()),
+                DataType::Box => b.set_box(i, (rng.f64(), rng.f64()), (rng.f64(), rng.f64())),
+                DataType::Circle => b.set_circle(i, (rng.f64(), rng.f64()), rng.f64()),
+                DataType::Composite => {
+                    if depth < 2 {
+                        let (_, inner) = gen_record(rng, &[DataType::Int4, DataType::Text, DataType::Bool], depth + 1);
+                        b.set_composite(i, &inner)
+                    } else {
+                        b.set_composite(i, &[4, 0, 0, 0])
+                    }
+                }
+                DataType::Array => b.set_array(i, &gen_array(rng)),
+            };
+            r.expect("record builder on valid input");
+        }
+        b.build().expect("record build")
+    };
+    (schema, bytes)
+}
+
+fn record_fields(bytes: &[u8], ncols: usize, nvar: usize) -> Vec<Vec<Field>> {
+    let mut hdr = vec![Field { blob: 0, off: 0, width: 2, ptr_max: 0 }];
+    let bm = (ncols + 7) / 8;
+    let mut bitmap = vec![];
+    for i in 0..bm {
+        bitmap.push(Field { blob: 0, off: (2 + i) as u32, width: 1, ptr_max: 0 });
+    }
+    let mut offs = vec![];
+    for i in 0..nvar {
+        offs.push(Field { blob: 0, off: (2 + bm + 2 * i) as u32, width: 2, ptr_max: 0 });
+    }
+    let hl = 2 + bm + 2 * nvar;
+    let mut body = vec![];
+    let mut o = hl;
+    while o + 4 <= bytes.len() {
+        body.push(Field { blob: 0, off: o as u32, width: 4, ptr_max: 0 });
+        o += 4;
+    }
+    let mut g = vec![hdr];
+    if !bitmap.is_empty() {
+        g.push(bitmap);
+    }
+    if !offs.is_empty() {
+        g.push(offs.clone());
+        g.push(offs); // the offset table is the main attack surface
+    }
+    if !body.is_empty() {
+        g.push(body);
+    }
+    g
+}
+
+fn build_record_bases(rng: &mut Rng, small: bool) -> Vec<Base> {
+    let mut out = vec![];
+    let n = if small { 6 } else { 24 };
+    for bi in 0..n {
+        let types: Vec<DataType> = if bi % 4 == 0 {
+            let mut t = ALL_TYPES[..32].to_vec();
+            rng.shuffle(&mut t);
+            t
+        } else {
+            let k = rng.usize(1, 10);
+            (0..k).map(|_| *rng.pick(&ALL_TYPES)).collect()
+        };
+        let (schema, bytes) = gen_record(rng, &types, 0);
+        let nvar = types.iter().filter(|t| t.fixed_size().is_none()).count();
+        let fields = record_fields(&bytes, types.len(), nvar);
+        out.push(Base {
+            name: format!("record#{} schema={:?}", bi, types),
+            blobs: vec![Blob { name: "record".into(), data: bytes }],
+            fields,
+            meta: Meta::Record { schema, types, comp_fields: 3 },
+        });
+    }
+    out
+}
+
+fn consume_value(v: &JsonbValue, rec: &mut Rec, depth: u32) {
+    match v {
+        JsonbValue::Array(view) | JsonbValue::Object(view) => {
+            if depth < 3 {
+                let view = *view;
+                jsonb_ops(rec, view, &[], depth + 1);
+            }
+        }
+        JsonbValue::String(s) => {
+            std::hint::black_box(s.len());
+        }
+        _ => {}
+    }
+}
+
+fn jsonb_ops(rec: &mut Rec, v: JsonbView, keys: &[String], depth: u32) {
+    rec.run("JsonbView.root_type", || v.root_type());
+    let n = rec.run("JsonbView.entry_count", || v.entry_count()).unwrap_or(0);
+    if let Some(val) = rec.run_res("JsonbView.as_value", || v.as_value()) {
+        if depth == 0 {
+            if let JsonbValue::String(s) = &val {
+                std::hint::black_box(s.len());
+            }
+        }
+    }
+    rec.run_res("JsonbView.to_json_string", || v.to_json_string());
+    for k in keys.iter().take(4) {
+        if let Some(Some(val)) = rec.run_res("JsonbView.get", || v.get(k)) {
+            consume_value(&val, rec, depth);
+        }
+    }
+    rec.run_res("JsonbView.get", || v.get("a"));
+    rec.run_res("JsonbView.get", || v.get("zzzz"));
+    rec.run_res("JsonbView.get_path", || v.get_path(&["a0", "b1"]));
+    rec.run_res("JsonbView.get_path", || v.get_path(&[]));
+    rec.run_res("JsonbView.array_len", || v.array_len());
+    rec.run_res("JsonbView.object_len", || v.object_len());
+    let mut idxs = vec![0usize, 1, 2, n / 2, n.wrapping_sub(1), n, n + 1];
+    idxs.sort();
+    idxs.dedup();
+    for i in idxs {
+        if let Some(Some(val)) = rec.run_res("JsonbView.array_get", || v.array_get(i)) {
+            consume_value(&val, rec, depth);
+        }
+    }
+    rec.run("JsonbView.iter_object", || {
+        if let Ok(it) = v.iter_object() {
+            for (k, item) in it.enumerate() {
+                if k > 4096 || item.is_err() {
+                    break;
+                }
+            }
+        }
+    });
+    rec.run("JsonbView.iter_array", || {
+        if let Ok(it) = v.iter_array() {
+            for (k, item) in it.enumerate() {
+                if k > 4096 || item.is_err() {
+                    break;
+                }
+            }
+        }
+    });
+}
+
+fn array_ops(rec: &mut Rec, v: ArrayView) {
+    rec.run("ArrayView.elem_type", || v.elem_type());
+    let n = rec.run("ArrayView.len", || v.len()).unwrap_or(0);
+    rec.run("ArrayView.is_empty", || v.is_empty());
+    let mut idxs = vec![0usize, 1, 2, 7, 8, n / 2, n.wrapping_sub(1), n, n + 1, 65534];
+    idxs.sort();
+    idxs.dedup();
+    for i in idxs {
+        rec.run("ArrayView.is_null", || v.is_null(i));
+        rec.run_res("ArrayView.get_int2", || v.get_int2(i));
+        rec.run_res("ArrayView.get_int4", || v.get_int4(i));
+        rec.run_res("ArrayView.get_int8", || v.get_int8(i));
+        rec.run_res("ArrayView.get_float4", || v.get_float4(i));
+        rec.run_res("ArrayView.get_float8", || v.get_float8(i));
+        rec.run_res("ArrayView.get_bool", || v.get_bool(i));
+        rec.run_res("ArrayView.get_text", || v.get_text(i).map(|s| s.len()));
+        rec.run_res("ArrayView.get_blob", || v.get_blob(i).map(|s| s.len()));
+    }
+}
+
+fn composite_ops(rec: &mut Rec, v: CompositeView, depth: u32) {
+    let fc = v.field_count();
+    for i in 0..=fc.min(9) {
+        rec.run("CompositeView.is_null", || v.is_null(i));
+        rec.run_res("CompositeView.get_field", || v.get_field(i).map(|s| s.len()));
+        if depth < 2 {
+            if let Some(n) = rec.run_res("CompositeView.get_nested_composite", || v.get_nested_composite(i, 3)) {
+                composite_ops(rec, n, depth + 1);
+            }
+        }
+    }
+}
+
+fn exec_record(rec: &mut Rec, base: &Base, blobs: &[Blob], seed: u64) {
+    let (schema, types, comp_fields) = match &base.meta {
+        Meta::Record { schema, types, comp_fields } => (schema, types, *comp_fields),
+        _ => return,
+    };
+    let buf = ExactBuf::new(&blobs[0].data, (seed % 4) as usize);
+    let data = buf.slice();
+    let view = match rec.run_res("RecordView.new", || RecordView::new(data, schema)) {
+        Some(v) => v,
+        None => return,
+    };
+    let v = &view;
+    rec.run("RecordView.header_len", || v.header_len());
+    rec.run("RecordView.null_bitmap", || v.null_bitmap().len());
+    rec.run("RecordView.offset_table", || v.offset_table().len());
+    rec.run("RecordView.record_column_count", || v.record_column_count());
+    for (i, t) in types.iter().enumerate() {
+        rec.run("RecordView.is_null", || v.is_null(i));
+        rec.run("RecordView.is_null_or_missing", || v.is_null_or_missing(i));
+        match t {
+            DataType::Bool => {
+                rec.run_res("RecordView.get_bool", || v.get_bool(i));
+                rec.run_res("RecordView.get_bool_opt", || v.get_bool_opt(i));
+            }
+            DataType::Int2 => {
+                rec.run_res("RecordView.get_int2", || v.get_int2(i));
+                rec.run_res("RecordView.get_int2_opt", || v.get_int2_opt(i));
+            }
+            DataType::Int4 => {
+                rec.run_res("RecordView.get_int4", || v.get_int4(i));
+                rec.run_res("RecordView.get_int4_opt", || v.get_int4_opt(i));
+            }
+            DataType::Int8 => {
+                rec.run_res("RecordView.get_int8", || v.get_int8(i));
+                rec.run_res("RecordView.get_int8_opt", || v.get_int8_opt(i));
+            }
+            DataType::Float4 => {
+                rec.run_res("RecordView.get_float4", || v.get_float4(i));
+                rec.run_res("RecordView.get_float4_opt", || v.get_float4_opt(i));
+            }
+            DataType::Float8 => {
+                rec.run_res("RecordView.get_float8", || v.get_float8(i));
+                rec.run_res("RecordView.get_float8_opt", || v.get_float8_opt(i));
+            }
+            DataType::Date => {
+                rec.run_res("RecordView.get_date", || v.get_date(i));
+                rec.run_res("RecordView.get_date_opt", || v.get_date_opt(i));
+            }
+            DataType::Time => {
+                rec.run_res("RecordView.get_time", || v.get_time(i));
+                rec.run_res("RecordView.get_time_opt", || v.get_time_opt(i));
+            }
+            DataType::Timestamp => {
+                rec.run_res("RecordView.get_timestamp", || v.get_timestamp(i));
+                rec.run_res("RecordView.get_timestamp_opt", || v.get_timestamp_opt(i));
+            }
+            DataType::TimestampTz => {
+                rec.run_res("RecordView.get_timestamptz", || v.get_timestamptz(i));
+                rec.run_res("RecordView.get_timestamptz_opt", || v.get_timestamptz_opt(i));
+            }
+            DataType::Uuid => {
+                rec.run_res("RecordView.get_uuid", || v.get_uuid(i).map(|u| u[15]));
+                rec.run_res("RecordView.get_uuid_opt", || v.get_uuid_opt(i).map(|u| u.map(|x| x[15])));
+            }
+            DataType::MacAddr => {
+                rec.run_res("RecordView.get_macaddr", || v.get_macaddr(i).map(|u| u[5]));
+                rec.run_res("RecordView.get_macaddr_opt", || v.get_macaddr_opt(i).map(|u| u.map(|x| x[5])));
+            }
+            DataType::Inet4 => {
+                rec.run_res("RecordView.get_inet4", || v.get_inet4(i).map(|u| u[3]));
+                rec.run_res("RecordView.get_inet4_opt", || v.get_inet4_opt(i).map(|u| u.map(|x| x[3])));
+            }
+            DataType::Inet6 => {
+                rec.run_res("RecordView.get_inet6", || v.get_inet6(i).map(|u| u[15]));
+                rec.run_res("RecordView.get_inet6_opt", || v.get_inet6_opt(i).map(|u| u.map(|x| x[15])));
+            }
+            DataType::Text => {
+                rec.run_res("RecordView.get_text", || v.get_text(i).map(|s| s.len()));
+                rec.run_res("RecordView.get_text_opt", || v.get_text_opt(i).map(|s| s.map(|x| x.len())));
+                rec.run_res("RecordView.get_var_bounds", || v.get_var_bounds(i));
+            }
+            DataType::Varchar => {
+                rec.run_res("RecordView.get_varchar", || v.get_varchar(i).map(|s| s.len()));
+            }
+            DataType::Char => {
+                rec.run_res("RecordView.get_char", || v.get_char(i).map(|s| s.len()));
+            }
+            DataType::Blob => {
+                rec.run_res("RecordView.get_blob", || v.get_blob(i).map(|s| s.iter().map(|b| *b as u64).sum::<u64>()));
+                rec.run_res("RecordView.get_blob_opt", || v.get_blob_opt(i).map(|s| s.map(|x| x.len())));
+                rec.run_res("RecordView.get_var_raw", || v.get_var_raw(i).map(|s| s.len()));
+            }
+            DataType::Vector => {
+                // read every element of the zero-copy slice so an out-of-bounds slice is observable
+                rec.run_res("RecordView.get_vector", || v.get_vector(i).map(|s| s.iter().map(|f| f.to_bits() as u64).sum::<u64>()));
+                rec.run_res("RecordView.get_vector_copy", || v.get_vector_copy(i).map(|s| s.len()));
+                rec.run_res("RecordView.get_vector_opt", || v.get_vector_opt(i).map(|s| s.map(|x| x.len())));
+            }
+            DataType::Jsonb => {
+                if let Some(j) = rec.run_res("RecordView.get_jsonb", || v.get_jsonb(i)) {
+                    jsonb_ops(rec, j, &[], 1);
+                }
+                rec.run_res("RecordView.get_jsonb_opt", || v.get_jsonb_opt(i).map(|x| x.is_some()));
+            }
+            DataType::Decimal => {
+                if let Some(d) = rec.run_res("RecordView.get_decimal", || v.get_decimal(i)) {
+                    rec.run("DecimalView.read", || (d.is_negative(), d.scale(), d.digits()));
+                }
+                rec.run_res("RecordView.get_decimal_opt", || v.get_decimal_opt(i).map(|x| x.is_some()));
+            }
+            DataType::Interval => {
+                rec.run_res("RecordView.get_interval", || v.get_interval(i));
+                rec.run_res("RecordView.get_interval_opt", || v.get_interval_opt(i));
+            }
+            DataType::Int4Range => {
+                rec.run_res("RecordView.get_int4_range", || v.get_int4_range(i).map(|_| ()));
+                rec.run_res("RecordView.get_int4_range_opt", || v.get_int4_range_opt(i).map(|_| ()));
+            }
+            DataType::DateRange => {
+                rec.run_res("RecordView.get_date_range", || v.get_date_range(i).map(|_| ()));
+                rec.run_res("RecordView.get_date_range_opt", || v.get_date_range_opt(i).map(|_| ()));
+            }
+            DataType::Int8Range => {
+                rec.run_res("RecordView.get_int8_range", || v.get_int8_range(i).map(|_| ()));
+                rec.run_res("RecordView.get_int8_range_opt", || v.get_int8_range_opt(i).map(|_| ()));
+            }
+            DataType::TimestampRange => {
+                rec.run_res("RecordView.get_timestamp_range", || v.get_timestamp_range(i).map(|_| ()));
+                rec.run_res("RecordView.get_timestamp_range_opt", || v.get_timestamp_range_opt(i).map(|_| ()));
+            }
+            DataType::Enum => {
+                rec.run_res("RecordView.get_enum", || v.get_enum(i));
+                rec.run_res("RecordView.get_enum_opt", || v.get_enum_opt(i));
+            }
+            DataType::Point => {
+                rec.run_res("RecordView.get_point", || v.get_point(i));
+                rec.run_res("RecordView.get_point_opt", || v.get_point_opt(i));
+            }
+            DataType::Box => {
+                rec.run_res("RecordView.get_box", || v.get_box(i));
+                rec.run_res("RecordView.get_box_opt", || v.get_box_opt(i));
+            }
+            DataType::Circle => {
+                rec.run_res("RecordView.get_circle", || v.get_circle(i));
+                rec.run_res("RecordView.get_circle_opt", || v.get_circle_opt(i));
+            }
+            DataType::Composite => {
+                if let Some(c) = rec.run_res("RecordView.get_composite", || v.get_composite(i, comp_fields)) {
+                    composite_ops(rec, c, 0);
+                }
+                rec.run_res("RecordView.get_composite_opt", || v.get_composite_opt(i, comp_fields).map(|x| x.is_some()));
+            }
+            DataType::Array => {
+                if let Some(a) = rec.run_res("RecordView.get_array", || v.get_array(i)) {
+                    array_ops(rec, a);
+                }
+                rec.run_res("RecordView.get_array_opt", || v.get_array_opt(i).map(|x| x.is_some()));
+            }
+        }
+    }
+}
+
+fn build_jsonb_bases(rng: &mut Rng, small: bool) -> Vec<Base> {
+    let n = if small { 6 } else { 24 };
+    (0..n)
+        .map(|i| {
+            let (bytes, keys) = gen_jsonb(rng);
+            let mut hdr = vec![Field { blob: 0, off: 0, width: 4, ptr_max: 0 }, Field { blob: 0, off: 0, width: 1, ptr_max: 0 }, Field { blob: 0, off: 3, width: 1, ptr_max: 0 }];
+            let mut ents = vec![];
+            let cnt = if bytes.len() >= 4 { (u32::from_le_bytes(bytes[0..4].try_into().unwrap()) & 0x0FFF_FFFF) as usize } else { 0 };
+            let root = if bytes.len() >= 4 { bytes[3] >> 4 } else { 9 };
+            if root <= 1 {
+                for e in 0..cnt {
+                    if 4 + 4 * e + 4 <= bytes.len() {
+                        ents.push(Field { blob: 0, off: (4 + 4 * e) as u32, width: 4, ptr_max: 0 });
+                        ents.push(Field { blob: 0, off: (4 + 4 * e) as u32, width: 2, ptr_max: 0 });
+                        ents.push(Field { blob: 0, off: (4 + 4 * e + 3) as u32, width: 1, ptr_max: 0 });
+                    }
+                }
+            }
+            let mut body = vec![];
+            let mut o = 4 + 4 * if root <= 1 { cnt } else { 0 };
+            while o + 2 <= bytes.len() {
+                body.push(Field { blob: 0, off: o as u32, width: 2, ptr_max: 0 });
+                o += 2;
+            }
+            let mut fields = vec![hdr];
+            if !ents.is_empty() {
+                fields.push(ents);
+            }
+            if !body.is_empty() {
+                fields.push(body);
+            }
+            Base { name: format!("jsonb#{} ({} bytes)", i, bytes.len()), blobs: vec![Blob { name: "jsonb".into(), data: bytes }], fields, meta: Meta::Jsonb { keys } }
+        })
+        .collect()
+}
+
+fn exec_jsonb(rec: &mut Rec, base: &Base, blobs: &[Blob], seed: u64) {
+    let keys: &[String] = match &base.meta {
+        Meta::Jsonb { keys } => keys,
+        _ => &[],
+    };
+    let buf = ExactBuf::new(&blobs[0].data, (seed % 2) as usize);
+    let data = buf.slice();
+    if let Some(v) = rec.run_res("JsonbView.new", || JsonbView::new(data)) {
+        jsonb_ops(rec, v, keys, 0);
+    }
+}
+
+fn build_array_bases(rng: &mut Rng, small: bool) -> Vec<Base> {
+    let n = if small { 6 } else { 20 };
+    let mut out: Vec<Base> = (0..n)
+        .map(|i| {
+            let bytes = gen_array(rng);
+            let hdr = vec![
+                Field { blob: 0, off: 0, width: 4, ptr_max: 0 },
+                Field { blob: 0, off: 4, width: 1, ptr_max: 0 },
+                Field { blob: 0, off: 5, width: 1, ptr_max: 0 },
+                Field { blob: 0, off: 6, width: 2, ptr_max: 0 },
+            ];
+            let mut body = vec![];
+            let mut o = 8;
+            while o + 4 <= bytes.len() {
+                body.push(Field { blob: 0, off: o as u32, width: 4, ptr_max: 0 });
+                o += 1;
+            }
+            let mut fields = vec![hdr];
+            if !body.is_empty() {
+                fields.push(body);
+            }
+            Base { name: format!("array#{} elem_type_byte={} n={}", i, bytes[4], u16::from_le_bytes([bytes[6], bytes[7]])), blobs: vec![Blob { name: "array".into(), data: bytes }], fields, meta: Meta::None }
+        })
+        .collect();
+    // composite values (nested records)
+    for i in 0..(if small { 2 } else { 6 }) {
+        let (_, bytes) = gen_record(rng, &[DataType::Int4, DataType::Text, DataType::Bool], 1);
+        let fields = record_fields(&bytes, 3, 1);
+        out.push(Base { name: format!("composite#{} (int4,text,bool)", i), blobs: vec![Blob { name: "composite".into(), data: bytes }], fields, meta: Meta::Composite { fields: 3 } });
+    }
+    out
+}
+
+fn exec_array(rec: &mut Rec, base: &Base, blobs: &[Blob], seed: u64) {
+    let buf = ExactBuf::new(&blobs[0].data, (seed % 2) as usize);
+    let data = buf.slice();
+    if let Meta::Composite { fields } = &base.meta {
+        let fc = if seed % 5 == 0 { 64 } else { *fields };
+        if let Some(c) = rec.run_res("CompositeView.new", || CompositeView::new(data, fc)) {
+            composite_ops(rec, c, 0);
+        }
+        return;
+    }
+    if let Some(v) = rec.run_res("ArrayView.new", || ArrayView::new(data)) {
+        array_ops(rec, v);
+    }
+}
+
+// ------------------------------------------------------------------------------------------
+// keys / varints
+// ------------------------------------------------------------------------------------------
+use turdb::encoding::key as ek;
+
+fn gen_key(rng: &mut Rng, depth: u32, out: &mut Vec<u8>) {
+    let k = if depth >= 3 { rng.below(16) } else { rng.below(24) };
+    match k {
+        0 => ek::encode_null(out),
+        1 => ek::encode_bool(rng.chance(1, 2), out),
+        2 => ek::encode_int(rng.next() as i64 >> rng.below(64), out),
+        3 => ek::encode_float(if rng.chance(1, 8) { f64::NAN } else { (rng.f64() - 0.5) * 1e9 }, out),
+        4 => ek::encode_text(&rand_text(rng, 16), out),
+        5 => {
+            let l = rng.usize(0, 16);
+            let mut b = rng.bytes(l);
+            if l > 2 {
+                b[0] = 0;
+                b[1] = 0xFF;
+            }
+            ek::encode_blob(&b, out)
+        }
+        6 => ek::encode_date(rng.next() as i32, out),
+        7 => ek::encode_timestamp(rng.next() as i64, out),
+        8 => {
+            let u: [u8; 16] = rng.bytes(16).try_into().unwrap();
+            ek::encode_uuid(&u, out)
+        }
+        9 => ek::encode_time(rng.next() as i64, out),
+        10 => ek::encode_timestamptz(rng.next() as i64, rng.next() as i16, out),
+        11 => ek::encode_interval(rng.next() as i32, rng.next() as i32, rng.next() as i64, out),
+        12 => {
+            let v6 = rng.chance(1, 2);
+            let a = rng.bytes(16);
+            ek::encode_inet(v6, &a, rng.below(129) as u8, out)
+        }
+        13 => {
+            let u: [u8; 6] = rng.bytes(6).try_into().unwrap();
+            ek::encode_macaddr(&u, out)
+        }
+        14 => ek::encode_enum(rng.next() as u32, rng.next() as u32, out),
+        15 => {
+            let n = rng.usize(0, 6);
+            let v: Vec<f32> = (0..n).map(|_| (rng.f64() - 0.5) as f32).collect();
+            ek::encode_vector(&v, out)
+        }
+        16 | 17 => {
+            let n = rng.usize(0, 4);
+            let seeds: Vec<u64> = (0..n).map(|_| rng.next()).collect();
+            let f = |s: &u64, b: &mut Vec<u8>| {
+                let mut r = Rng::new(*s);
+                gen_key(&mut r, depth + 1, b)
+            };
+            if k == 16 {
+                ek::encode_tuple(&seeds, out, f)
+            } else {
+                ek::encode_array(&seeds, out, f)
+            }
+        }
+        18 => {
+            let lo = if rng.chance(1, 3) { None } else { Some(rng.next()) };
+            let hi = if rng.chance(1, 3) { None } else { Some(rng.next()) };
+            ek::encode_range(lo.as_ref(), hi.as_ref(), rng.chance(1, 2), rng.chance(1, 2), out, |s: &u64, b: &mut Vec<u8>| {
+                let mut r = Rng::new(*s);
+                gen_key(&mut r, 3, b)
+            })
+        }
+        19 => {
+            let n = rng.usize(0, 4);
+            let seeds: Vec<u64> = (0..n).map(|_| rng.next()).collect();
+            ek::encode_composite(rng.next() as u32, &seeds, out, |s: &u64, b: &mut Vec<u8>| {
+                let mut r = Rng::new(*s);
+                gen_key(&mut r, depth + 1, b)
+            })
+        }
+        20 => {
+            let s = rng.next();
+            ek::encode_domain(rng.next() as u32, &s, out, |s: &u64, b: &mut Vec<u8>| {
+                let mut r = Rng::new(*s);
+                gen_key(&mut r, depth + 1, b)
+            })
+        }
+        _ => {
+            let t = rand_text(rng, 6);
+            let arr = [ek::JsonValue::Number(rng.f64()), ek::JsonValue::Null, ek::JsonValue::String("s")];
+            let obj = [("k", ek::JsonValue::Bool(true)), ("l", ek::JsonValue::Array(&arr))];
+            let j = match rng.below(5) {
+                0 => ek::JsonValue::Null,
+                1 => ek::JsonValue::Number((rng.f64() - 0.5) * 100.0),
+                2 => ek::JsonValue::String(&t),
+                3 => ek::JsonValue::Array(&arr),
+                _ => ek::JsonValue::Object(&obj),
+            };
+            ek::encode_json(&j, out)
+        }
+    }
+}
+
+fn build_key_bases(rng: &mut Rng, small: bool) -> Vec<Base> {
+    let n = if small { 12 } else { 48 };
+    (0..n)
+        .map(|i| {
+            let mut b = vec![];
+            gen_key(rng, 0, &mut b);
+            // composite index keys are concatenations
+            if rng.chance(1, 4) {
+                gen_key(rng, 1, &mut b);
+            }
+            Base { name: format!("key#{} prefix=0x{:02x} len={}", i, b[0], b.len()), blobs: vec![Blob { name: "key".into(), data: b }], fields: vec![], meta: Meta::None }
+        })
+        .collect()
+}
+
+/// crafted deeply nested inputs: the recursive decoder has no depth limit
+fn deep_key(kind: u64, depth: usize) -> Vec<u8> {
+    let mut v = Vec::new();
+    match kind % 4 {
+        0 => {
+            for _ in 0..depth {
+                v.extend_from_slice(&[0x65, 0, 0, 0, 1]); // DOMAIN + type id
+            }
+            v.push(0x01);
+        }
+        1 => {
+            for _ in 0..depth {
+                v.extend_from_slice(&[0x62, 0x02]); // RANGE, upper bound absent, lower present
+            }
+            v.push(0x01);
+        }
+        2 => {
+            for _ in 0..depth {
+                v.push(0x60); // ARRAY of one element
+            }
+            v.push(0x01);
+            for _ in 0..depth {
+                v.push(0x00);
+            }
+        }
+        _ => {
+            for _ in 0..depth {
+                v.push(0x55); // JSON_ARRAY
+            }
+            v.push(0x50);
+            for _ in 0..depth {
+                v.push(0x00);
+            }
+        }
+    }
+    v
+}
+
+fn exec_key(rec: &mut Rec, blobs: &[Blob]) {
+    let buf = ExactBuf::new(&blobs[0].data, 0);
+    let data = buf.slice();
+    let mut off = 0usize;
+    // decode a concatenation the way index keys are read
+    for _ in 0..4 {
+        if off >= data.len() && off > 0 {
+            break;
+        }
+        let d = &data[off.min(data.len())..];
+        match rec.run_res("decode_key.decode", || ek::decode_key(d)) {
+            Some((k, used)) => {
+                if used > d.len() || used == 0 {
+                    rec.raise("C23/decode_key/consumed_gt_len".into(), "consumed_le_len", json!({"consumed": used, "len": d.len()}));
+                    break;
+                }
+                rec.run("decode_key.drop", move || drop(k));
+                off += used;
+            }
+            None => break,
+        }
+    }
+}
+
+fn exec_varint(rec: &mut Rec, blobs: &[Blob]) {
+    let buf = ExactBuf::new(&blobs[0].data, 0);
+    let data = buf.slice();
+    if let Some((_, used)) = rec.run_res("decode_varint.decode", || turdb::encoding::varint::decode_varint(data)) {
+        if used > data.len() || used == 0 {
+            rec.raise("C23/decode_varint/consumed_gt_len".into(), "consumed_le_len", json!({"consumed": used, "len": data.len()}));
+        }
+    }
+}
+
+fn build_varint_bases(rng: &mut Rng) -> Vec<Base> {
+    let mut out = vec![];
+    for v in [0u64, 240, 241, 2287, 2288, 67823, 67824, 1 << 24, 1 << 32, 1 << 40, 1 << 48, 1 << 56, u64::MAX, rng.next()] {
+        let mut b = [0u8; 9];
+        let n = turdb::encoding::varint::encode_varint(v, &mut b);
+        out.push(Base { name: format!("varint({})", v), blobs: vec![Blob { name: "varint".into(), data: b[..n].to_vec() }], fields: vec![], meta: Meta::None });
+    }
+    out
+}
+
+// ------------------------------------------------------------------------------------------
+// catalog
+// ------------------------------------------------------------------------------------------
+use turdb::schema::persistence::CatalogPersistence;
+use turdb::schema::{Catalog, Constraint, IndexDef, IndexType, ReferentialAction, TableDef};
+
+fn gen_catalog(rng: &mut Rng) -> Catalog {
+    let mut cat = Catalog::new();
+    let root = cat.default_schema().to_string();
+    let nt = rng.usize(0, 4);
+    for t in 0..nt {
+        let nc = rng.usize(1, 6);
+        let mut cols = vec![];
+        for c in 0..nc {
+            let dt = *rng.pick(&ALL_TYPES);
+            let mut col = turdb::schema::ColumnDef::new(format!("col{}", c), dt);
+            for _ in 0..rng.below(3) {
+                col = col.with_constraint(match rng.below(6) {
+                    0 => Constraint::NotNull,
+                    1 => Constraint::PrimaryKey,
+                    2 => Constraint::Unique,
+                    3 => Constraint::AutoIncrement,
+                    4 => Constraint::Check(format!("col{} > {}", c, rng.below(10))),
+                    _ => Constraint::ForeignKey { table: "t0".into(), column: "col0".into(), on_delete: Some(ReferentialAction::Cascade), on_update: if rng.chance(1, 2) { None } else { Some(ReferentialAction::SetNull) } },
+                });
+            }
+            if rng.chance(1, 3) {
+                col = col.with_default(format!("{}", rng.below(100)));
+            }
+            if rng.chance(1, 3) {
+                col = col.with_max_length(rng.below(300) as u32);
+            }
+            cols.push(col);
+        }
+        let mut td = TableDef::new(t as u64 + 1, format!("t{}", t), cols);
+        if rng.chance(1, 2) {
+            td = td.with_primary_key(vec!["col0".to_string()]);
+        }
+        for ix in 0..rng.below(3) {
+            td = td.with_index(IndexDef::new(format!("idx{}_{}", t, ix), vec!["col0".to_string()], rng.chance(1, 2), if rng.chance(1, 4) { IndexType::Hnsw } else { IndexType::BTree }));
+        }
+        if rng.chance(1, 3) {
+            td = td.with_toast_id(100 + t as u64);
+        }
+        cat.get_schema_mut(&root).unwrap().add_table(td);
+    }
+    cat
+}
+
+fn catalog_fields(bytes: &[u8], base_off: usize) -> Vec<Vec<Field>> {
+    // every 2- and 4-byte window is a potential length/count field in this format
+    let mut w2 = vec![];
+    let mut w4 = vec![];
+    let mut o = base_off;
+    while o + 2 <= bytes.len() {
+        w2.push(Field { blob: 0, off: o as u32, width: 2, ptr_max: 0 });
+        if o + 4 <= bytes.len() {
+            w4.push(Field { blob: 0, off: o as u32, width: 4, ptr_max: 0 });
+        }
+        o += 1;
+    }
+    let mut g = vec![];
+    if !w2.is_empty() {
+        g.push(w2);
+    }
+    if !w4.is_empty() {
+        g.push(w4);
+    }
+    g
+}
+
+fn build_catalog_bases(rng: &mut Rng, small: bool) -> Vec<Base> {
+    let n = if small { 3 } else { 10 };
+    (0..n)
+        .map(|i| {
+            let cat = gen_catalog(rng);
+            let bytes = CatalogPersistence::serialize(&cat).expect("serialize catalog");
+            let fields = catalog_fields(&bytes, 0);
+            Base { name: format!("catalog#{} ({} bytes)", i, bytes.len()), blobs: vec![Blob { name: "catalog".into(), data: bytes }], fields, meta: Meta::None }
+        })
+        .collect()
+}
+
+fn exec_catalog(rec: &mut Rec, blobs: &[Blob]) {
+    let buf = ExactBuf::new(&blobs[0].data, 0);
+    let data = buf.slice();
+    let mut cat = Catalog::new();
+    let ok = rec.run_res("CatalogPersistence.deserialize", || CatalogPersistence::deserialize(data, &mut cat)).is_some();
+    if ok {
+        rec.run("CatalogPersistence.walk", || {
+            let mut n = 0usize;
+            for (_, s) in cat.schemas() {
+                for (_, t) in s.tables() {
+                    n += t.columns().len() + t.indexes().len() + t.primary_key().map(|p| p.len()).unwrap_or(0);
+                }
+            }
+            n
+        });
+        rec.run_res("CatalogPersistence.reserialize", || CatalogPersistence::serialize(&cat));
+    }
+}
+
+// ------------------------------------------------------------------------------------------
+// file / page headers, HNSW pages and nodes (in memory)
+// ------------------------------------------------------------------------------------------
+use turdb::hnsw::storage::{HnswFileHeader, HnswPage, HnswPageRef};
+use turdb::hnsw::{DistanceFunction, HnswNode, HnswNodeInline, NodeId, QuantizationType};
+use turdb::storage::{validate_page, IndexFileHeader, MetaFileHeader, PageHeader, TableFileHeader};
+use zerocopy_bytes::AsBytesCompat;
+
+/// headers are written through the real constructors; `IntoBytes` lives in zerocopy, which the
+/// harness does not depend on, so the bytes are obtained through the crate's own `write`-style APIs
+mod zerocopy_bytes {
+    pub trait AsBytesCompat {
+        fn raw_bytes(&self) -> Vec<u8>;
+    }
+    impl<T: Copy> AsBytesCompat for T {
+        fn raw_bytes(&self) -> Vec<u8> {
+            // all header structs are repr(C), Unaligned, without padding (size asserted == 128 in turdb)
+            let p = self as *const T as *const u8;
+            unsafe { std::slice::from_raw_parts(p, std::mem::size_of::<T>()).to_vec() }
+        }
+    }
+}
+
+fn header_fields() -> Vec<Vec<Field>> {
+    let mut w1 = vec![];
+    let mut w2 = vec![];
+    let mut w4 = vec![];
+    let mut w8 = vec![];
+    for o in 0..128u32 {
+        w1.push(Field { blob: 0, off: o, width: 1, ptr_max: 0 });
+        if o % 2 == 0 {
+            w2.push(Field { blob: 0, off: o, width: 2, ptr_max: 0 });
+        }
+        if o % 4 == 0 && o >= 16 {
+            w4.push(Field { blob: 0, off: o, width: 4, ptr_max: 8 });
+        }
+        if o % 8 == 0 && o >= 16 {
+            w8.push(Field { blob: 0, off: o, width: 8, ptr_max: 0 });
+        }
+    }
+    vec![w1, w2, w4, w8]
+}
+
+fn make_hnsw_node(rng: &mut Rng) -> Vec<u8> {
+    let ml = rng.below(4) as u8;
+    let mut n = HnswNode::new(rng.next(), ml);
+    for _ in 0..rng.below(20) {
+        n.add_level0_neighbor(NodeId::new(rng.below(8) as u32, rng.below(8) as u16));
+    }
+    for l in 1..=ml {
+        for _ in 0..rng.below(8) {
+            n.add_neighbor_at_level(l, NodeId::new(rng.below(8) as u32, rng.below(8) as u16));
+        }
+    }
+    let mut buf = vec![0u8; n.serialized_size()];
+    let w = n.write_to(&mut buf);
+    buf.truncate(w);
+    buf
+}
+
+fn make_hnsw_page(rng: &mut Rng) -> Vec<u8> {
+    let mut page = vec![0u8; PAGE];
+    {
+        let mut p = HnswPage::init(&mut page).expect("hnsw page init");
+        for _ in 0..rng.usize(0, 12) {
+            let node = make_hnsw_node(rng);
+            if let Ok(slot) = p.allocate_slot(node.len() as u16 + rng.below(16) as u16) {
+                p.write_node_data(slot, &node).expect("write node");
+                if rng.chance(1, 6) {
+                    let _ = p.mark_deleted(slot);
+                }
+            }
+        }
+    }
+    page
+}
+
+fn hnsw_page_fields(page: &[u8]) -> Vec<Vec<Field>> {
+    let mut hdr = vec![];
+    for o in [0u32, 1, 2, 4, 6] {
+        hdr.push(Field { blob: 0, off: o, width: if o < 2 { 1 } else { 2 }, ptr_max: 0 });
+    }
+    for o in [16u32, 18, 20, 22, 24, 26] {
+        hdr.push(Field { blob: 0, off: o, width: 2, ptr_max: 0 });
+    }
+    hdr.push(Field { blob: 0, off: 28, width: 4, ptr_max: 8 });
+    let cnt = u16::from_le_bytes([page[16], page[17]]) as usize;
+    let mut slots = vec![];
+    let mut nodes = vec![];
+    for s in 0..cnt.min(64) {
+        let so = 64 + 4 * s;
+        slots.push(Field { blob: 0, off: so as u32, width: 2, ptr_max: 0 });
+        slots.push(Field { blob: 0, off: so as u32 + 2, width: 2, ptr_max: 0 });
+        let off = (u16::from_le_bytes([page[so], page[so + 1]]) & 0x1FFF) as usize;
+        if off + 10 < page.len() {
+            nodes.push(Field { blob: 0, off: off as u32 + 8, width: 1, ptr_max: 0 });
+            nodes.push(Field { blob: 0, off: off as u32 + 9, width: 1, ptr_max: 0 });
+            nodes.push(Field { blob: 0, off: off as u32 + 10, width: 4, ptr_max: 8 });
+        }
+    }
+    let mut g = vec![hdr];
+    if !slots.is_empty() {
+        g.push(slots);
+    }
+    if !nodes.is_empty() {
+        g.push(nodes);
+    }
+    g
+}
+
+fn build_header_bases(rng: &mut Rng) -> Vec<Base> {
+    let mut out = vec![];
+    let mut add = |name: &str, kind: &'static str, mut bytes: Vec<u8>, pad: usize| {
+        bytes.resize(bytes.len() + pad, 0);
+        out.push(Base { name: name.to_string(), blobs: vec![Blob { name: kind.into(), data: bytes }], fields: header_fields(), meta: Meta::Header { kind } });
+    };
+    add("MetaFileHeader::new()", "meta", MetaFileHeader::new().raw_bytes(), 0);
+    add("MetaFileHeader::new() + page", "meta", MetaFileHeader::new().raw_bytes(), PAGE - 128);
+    add("TableFileHeader::new(7,300,1,5,0,301)", "table", TableFileHeader::new(7, 300, 1, 5, 0, 301).raw_bytes(), 0);
+    add("TableFileHeader::new(1,u64::MAX-1,3,2,9,u64::MAX-1)", "table", TableFileHeader::new(1, u64::MAX - 1, 3, 2, 9, u64::MAX - 1).raw_bytes(), 16);
+    add("IndexFileHeader::new(3,7,1,2,true,0)", "index", IndexFileHeader::new(3, 7, 1, 2, true, 0).raw_bytes(), 0);
+    add("HnswFileHeader::new(1,2,4,16,100,32,L2,None)", "hnsw", HnswFileHeader::new(1, 2, 4, 16, 100, 32, DistanceFunction::L2, QuantizationType::None).raw_bytes(), 0);
+    add("HnswFileHeader::new(9,9,128,8,50,16,Cosine,SQ8)", "hnsw", HnswFileHeader::new(9, 9, 128, 8, 50, 16, DistanceFunction::Cosine, QuantizationType::SQ8).raw_bytes(), PAGE - 128);
+    // a page header on a valid leaf page
+    let mut page = vec![0u8; PAGE];
+    {
+        let mut l = turdb::btree::LeafNodeMut::init(&mut page).unwrap();
+        l.insert_cell(b"k1", b"v1").unwrap();
+    }
+    out.push(Base {
+        name: "PageHeader of a one-cell leaf page".into(),
+        blobs: vec![Blob { name: "page".into(), data: page }],
+        fields: vec![(0..16u32).map(|o| Field { blob: 0, off: o, width: 1, ptr_max: 0 }).collect(), (0..8u32).map(|o| Field { blob: 0, off: o * 2, width: 2, ptr_max: 0 }).collect()],
+        meta: Meta::Header { kind: "page" },
+    });
+    out
+}
+
+fn exec_header(rec: &mut Rec, base: &Base, blobs: &[Blob]) {
+    let kind = match &base.meta {
+        Meta::Header { kind } => *kind,
+        _ => return,
+    };
+    let buf = ExactBuf::new(&blobs[0].data, 0);
+    let d = buf.slice();
+    match kind {
+        "meta" => {
+            if let Some(h) = rec.run_res("MetaFileHeader.from_bytes", || MetaFileHeader::from_bytes(d)) {
+                rec.run("MetaFileHeader.getters", || (h.version(), h.page_size(), h.schema_count(), h.default_schema_id(), h.next_table_id(), h.next_index_id(), h.flags()));
+            }
+        }
+        "table" => {
+            if let Some(h) = rec.run_res("TableFileHeader.from_bytes", || TableFileHeader::from_bytes(d)) {
+                rec.run("TableFileHeader.getters", || (h.table_id(), h.row_count(), h.root_page(), h.column_count(), h.first_free_page(), h.auto_increment(), h.rightmost_hint()));
+            }
+            let mut copy = d.to_vec();
+            rec.run_res("TableFileHeader.from_bytes_mut", || TableFileHeader::from_bytes_mut(&mut copy).map(|h| h.row_count()));
+        }
+        "index" => {
+            if let Some(h) = rec.run_res("IndexFileHeader.from_bytes", || IndexFileHeader::from_bytes(d)) {
+                rec.run("IndexFileHeader.getters", || (h.index_id(), h.table_id(), h.root_page(), h.key_column_count(), h.is_unique(), h.index_type()));
+            }
+            let mut copy = d.to_vec();
+            rec.run_res("IndexFileHeader.from_bytes_mut", || IndexFileHeader::from_bytes_mut(&mut copy).map(|h| h.root_page()));
+        }
+        "hnsw" => {
+            if let Some(h) = rec.run_res("HnswFileHeader.from_bytes", || HnswFileHeader::from_bytes(d)) {
+                rec.run("HnswFileHeader.getters", || {
+                    (h.index_id(), h.table_id(), h.dimensions(), h.m(), h.m0(), h.ef_construction(), h.ef_search(), h.distance_fn(), h.quantization(), h.entry_point().map(|e| e.page_no()), h.max_level(), h.node_count(), h.vector_count(), h.first_free_page())
+                });
+                rec.run("HnswIndex.from_header", || {
+                    let ix = turdb::hnsw::HnswIndex::from_header(h);
+                    (ix.dimensions(), ix.m(), ix.node_count(), ix.max_level())
+                });
+            }
+            let mut copy = d.to_vec();
+            rec.run_res("HnswFileHeader.from_bytes_mut", || HnswFileHeader::from_bytes_mut(&mut copy).map(|h| h.node_count()));
+        }
+        _ => {
+            if let Some(h) = rec.run_res("PageHeader.from_bytes", || PageHeader::from_bytes(d)) {
+                rec.run("PageHeader.getters", || (h.page_type(), h.flags(), h.cell_count(), h.free_start(), h.free_end(), h.free_space(), h.frag_bytes(), h.right_child(), h.next_leaf()));
+            }
+            rec.run_res("PageHeader.validate_page", || validate_page(d));
+        }
+    }
+}
+
+fn build_hnsw_bases(rng: &mut Rng, small: bool) -> Vec<Base> {
+    let mut out = vec![];
+    for i in 0..(if small { 2 } else { 6 }) {
+        let page = make_hnsw_page(rng);
+        let fields = hnsw_page_fields(&page);
+        out.push(Base { name: format!("hnsw_node_page#{} slots={}", i, u16::from_le_bytes([page[16], page[17]])), blobs: vec![Blob { name: "hnsw_page".into(), data: page }], fields, meta: Meta::Hnsw { kind: "page", dims: 0 } });
+    }
+    for i in 0..(if small { 3 } else { 10 }) {
+        let node = make_hnsw_node(rng);
+        let mut f = vec![Field { blob: 0, off: 8, width: 1, ptr_max: 0 }, Field { blob: 0, off: 9, width: 1, ptr_max: 0 }];
+        for o in 10..node.len() {
+            f.push(Field { blob: 0, off: o as u32, width: 1, ptr_max: 0 });
+        }
+        out.push(Base { name: format!("hnsw_node#{} max_level={} l0={} len={}", i, node[8], node[9], node.len()), blobs: vec![Blob { name: "hnsw_node".into(), data: node }], fields: vec![f], meta: Meta::Hnsw { kind: "node", dims: 0 } });
+    }
+    out
+}
+
+fn hnsw_page_ops(rec: &mut Rec, d: &[u8]) {
+    if let Some(p) = rec.run_res("HnswPage.from_bytes", || HnswPageRef::from_bytes(d)) {
+        let n = rec.run("HnswPage.slot_count", || p.slot_count()).unwrap_or(0);
+        rec.run("HnswPage.free_space", || (p.free_space(), p.can_fit(100)));
+        let mut idx: Vec<u16> = (0..n.min(24)).collect();
+        idx.extend_from_slice(&[n / 2, n.wrapping_sub(1), n, 4079, 4080, 65534]);
+        idx.sort();
+        idx.dedup();
+        for s in idx {
+            rec.run("HnswPage.get_slot", || p.get_slot(s).map(|e| (e.offset, e.size, e.is_active(), e.is_free(), e.is_deleted())));
+            if let Some(data) = rec.run_res("HnswPage.read_node_data", || p.read_node_data(s)) {
+                rec.run_res("HnswNode.read_from", || HnswNode::read_from(data).map(|n| (n.row_id(), n.max_level(), n.level0_neighbors().len(), (0..=n.max_level()).map(|l| n.neighbors_at_level(l).len()).sum::<usize>())));
+                rec.run_res("HnswNodeInline.read_from", || HnswNodeInline::read_from(data).map(|n| (n.row_id(), n.max_level(), n.level0_neighbors().len())));
+            }
+        }
+    }
+    // the mutable view has its own accessors
+    let mut copy = d.to_vec();
+    if let Some(p) = rec.run_res("HnswPage.from_bytes_mut", || HnswPage::from_bytes(&mut copy)) {
+        rec.run("HnswPage.mut_getters", || (p.slot_count(), p.free_space(), p.active_nodes(), p.can_fit(64), p.get_slot(0).map(|s| s.size)));
+        rec.run_res("HnswPage.mut_read_node_data", || p.read_node_data(0).map(|x| x.len()));
+    }
+}
+
+fn exec_hnsw(rec: &mut Rec, base: &Base, blobs: &[Blob]) {
+    let buf = ExactBuf::new(&blobs[0].data, 0);
+    let d = buf.slice();
+    match &base.meta {
+        Meta::Hnsw { kind: "page", .. } => hnsw_page_ops(rec, d),
+        _ => {
+            rec.run_res("HnswNode.read_from", || HnswNode::read_from(d).map(|n| (n.row_id(), n.max_level(), n.level0_neighbors().len(), (0..=n.max_level()).map(|l| n.neighbors_at_level(l).len()).sum::<usize>(), n.serialized_size())));
+            rec.run_res("HnswNodeInline.read_from", || HnswNodeInline::read_from(d).map(|n| (n.row_id(), n.max_level(), n.level0_neighbors().len(), (0..=n.max_level()).map(|l| n.neighbors_at_level(l).len()).sum::<usize>())));
+        }
+    }
+}
+
+// ------------------------------------------------------------------------------------------
+// B-tree pages and page sets
+// ------------------------------------------------------------------------------------------
+use turdb::btree::{BTree, BTreeReader, InteriorNode, InteriorNodeMut, LeafNode, LeafNodeMut, SlotBatch};
+
+/// structural fields of the 16 KiB pages in `data` (groups: page headers, slots, cells, pointers)
+fn page_fields(blob: u16, data: &[u8], first_page_file_header: bool, out: &mut Vec<Vec<Field>>) {
+    let np = data.len() / PAGE;
+    let mut hdrs = vec![];
+    let mut slots = vec![];
+    let mut cells = vec![];
+    let mut ptrs = vec![];
+    let mut fhdr = vec![];
+    for p in 0..np {
+        let b = p * PAGE;
+        let pg = &data[b..b + PAGE];
+        if p == 0 && first_page_file_header {
+            for o in (16..128).step_by(4) {
+                fhdr.push(Field { blob, off: (b + o) as u32, width: 4, ptr_max: np as u32 });
+                if o % 8 == 0 {
+                    fhdr.push(Field { blob, off: (b + o) as u32, width: 8, ptr_max: 0 });
+                }
+            }
+            for o in 0..16 {
+                fhdr.push(Field { blob, off: (b + o) as u32, width: 1, ptr_max: 0 });
+            }
+            continue;
+        }
+        let ty = pg[0];
+        hdrs.push(Field { blob, off: b as u32, width: 1, ptr_max: 0 });
+        for o in [2usize, 4, 6] {
+            hdrs.push(Field { blob, off: (b + o) as u32, width: 2, ptr_max: 0 });
+        }
+        ptrs.push(Field { blob, off: (b + 12) as u32, width: 4, ptr_max: np as u32 });
+        let cc = u16::from_le_bytes([pg[2], pg[3]]) as usize;
+        if ty == 0x02 {
+            let sel: Vec<usize> = if cc <= 12 { (0..cc).collect() } else { vec![0, 1, 2, cc / 3, cc / 2, cc - 3, cc - 2, cc - 1] };
+            for i in sel {
+                let so = 24 + 8 * i;
+                if so + 8 > PAGE {
+                    break;
+                }
+                slots.push(Field { blob, off: (b + so) as u32, width: 4, ptr_max: 0 });
+                slots.push(Field { blob, off: (b + so + 4) as u32, width: 2, ptr_max: 0 });
+                slots.push(Field { blob, off: (b + so + 6) as u32, width: 2, ptr_max: 0 });
+                let co = u16::from_le_bytes([pg[so + 4], pg[so + 5]]) as usize + u16::from_le_bytes([pg[so + 6], pg[so + 7]]) as usize;
+                if co + 2 < PAGE {
+                    cells.push(Field { blob, off: (b + co) as u32, width: 1, ptr_max: 0 });
+                    cells.push(Field { blob, off: (b + co) as u32, width: 2, ptr_max: 0 });
+                }
+            }
+        } else if ty == 0x01 {
+            let sel: Vec<usize> = if cc <= 12 { (0..cc).collect() } else { vec![0, 1, cc / 2, cc - 2, cc - 1] };
+            for i in sel {
+                let so = 16 + 12 * i;
+                if so + 12 > PAGE {
+                    break;
+                }
+                slots.push(Field { blob, off: (b + so) as u32, width: 4, ptr_max: 0 });
+                ptrs.push(Field { blob, off: (b + so + 4) as u32, width: 4, ptr_max: np as u32 });
+                slots.push(Field { blob, off: (b + so + 8) as u32, width: 2, ptr_max: 0 });
+                slots.push(Field { blob, off: (b + so + 10) as u32, width: 2, ptr_max: 0 });
+            }
+        } else if ty == 0x10 {
+            for o in [16usize, 18, 20, 22, 24, 26] {
+                hdrs.push(Field { blob, off: (b + o) as u32, width: 2, ptr_max: 0 });
+            }
+            ptrs.push(Field { blob, off: (b + 28) as u32, width: 4, ptr_max: np as u32 });
+            let sc = u16::from_le_bytes([pg[16], pg[17]]) as usize;
+            for s in 0..sc.min(16) {
+                slots.push(Field { blob, off: (b + 64 + 4 * s) as u32, width: 2, ptr_max: 0 });
+                slots.push(Field { blob, off: (b + 64 + 4 * s + 2) as u32, width: 2, ptr_max: 0 });
+            }
+        }
+    }
+    for g in [fhdr, hdrs, slots, cells, ptrs] {
+        if !g.is_empty() {
+            out.push(g);
+        }
+    }
+}
+
+fn gen_tree_keys(rng: &mut Rng, n: usize, klen: usize) -> Vec<Vec<u8>> {
+    let mut set = std::collections::BTreeSet::new();
+    let style = rng.below(3);
+    while set.len() < n {
+        let mut k = match style {
+            0 => (rng.below(100_000) as u32).to_be_bytes().to_vec(),
+            1 => {
+                let mut k = vec![0x20, b'k', b'e', b'y'];
+                k.extend_from_slice(&(rng.below(50_000) as u32).to_be_bytes());
+                k
+            }
+            _ => {
+                let l = rng.usize(1, 12);
+                rng.bytes(l)
+            }
+        };
+        if klen > k.len() {
+            let pad = klen - k.len();
+            k.extend(std::iter::repeat(b'p').take(pad));
+        }
+        set.insert(k);
+    }
+    set.into_iter().collect()
+}
+
+fn probes_from(rng: &mut Rng, keys: &[Vec<u8>]) -> Vec<Vec<u8>> {
+    let mut ps: Vec<Vec<u8>> = vec![vec![], vec![0], vec![0xff; 6]];
+    for _ in 0..6 {
+        if keys.is_empty() {
+            break;
+        }
+        let k = rng.pick(keys).clone();
+        let mut k2 = k.clone();
+        k2.push(1);
+        ps.push(k);
+        ps.push(k2);
+    }
+    ps.push(keys.first().cloned().unwrap_or_default());
+    ps.push(keys.last().cloned().unwrap_or_default());
+    ps
+}
+
+fn build_leaf_bases(rng: &mut Rng, small: bool) -> Vec<Base> {
+    let mut out = vec![];
+    for i in 0..(if small { 3 } else { 8 }) {
+        let n = *rng.pick(&[0usize, 1, 7, 8, 9, 40, 300]);
+        let keys = gen_tree_keys(rng, n, if i % 3 == 0 { 30 } else { 0 });
+        let mut page = vec![0u8; PAGE];
+        {
+            let mut l = LeafNodeMut::init(&mut page).unwrap();
+            for k in &keys {
+                let vl = rng.usize(0, 20);
+                let v = rng.bytes(vl);
+                if l.insert_cell(k, &v).is_err() {
+                    break;
+                }
+            }
+        }
+        let mut fields = vec![];
+        page_fields(0, &page, false, &mut fields);
+        let probes = probes_from(rng, &keys);
+        out.push(Base { name: format!("leaf_page#{} cells={}", i, u16::from_le_bytes([page[2], page[3]])), blobs: vec![Blob { name: "leaf_page".into(), data: page }], fields, meta: Meta::Leaf { probes } });
+    }
+    out
+}
+
+fn build_interior_bases(rng: &mut Rng, small: bool) -> Vec<Base> {
+    let mut out = vec![];
+    for i in 0..(if small { 2 } else { 6 }) {
+        let n = *rng.pick(&[0usize, 1, 5, 30, 200]);
+        let keys = gen_tree_keys(rng, n, if i % 2 == 0 { 20 } else { 0 });
+        let mut page = vec![0u8; PAGE];
+        {
+            let mut node = InteriorNodeMut::init(&mut page, 99).unwrap();
+            for (j, k) in keys.iter().enumerate() {
+                if node.insert_separator(k, 2 + j as u32).is_err() {
+                    break;
+                }
+            }
+        }
+        let mut fields = vec![];
+        page_fields(0, &page, false, &mut fields);
+        let probes = probes_from(rng, &keys);
+        out.push(Base { name: format!("interior_page#{} cells={}", i, u16::from_le_bytes([page[2], page[3]])), blobs: vec![Blob { name: "interior_page".into(), data: page }], fields, meta: Meta::Interior { probes } });
+    }
+    out
+}
+
+fn sample_indices(cc: usize, dense: usize) -> Vec<usize> {
+    let mut v: Vec<usize> = (0..cc.min(dense)).collect();
+    v.extend_from_slice(&[cc / 2, cc.wrapping_sub(1), cc, cc + 1, 1364, 1365, 2044, 2045, 2046, 65534]);
+    v.sort();
+    v.dedup();
+    v
+}
+
+fn exec_leaf(rec: &mut Rec, base: &Base, blobs: &[Blob]) {
+    let probes: &[Vec<u8>] = match &base.meta {
+        Meta::Leaf { probes } => probes,
+        _ => &[],
+    };
+    let buf = ExactBuf::new(&blobs[0].data, 0);
+    let d = buf.slice();
+    rec.run_res("PageHeader.validate_page", || validate_page(d));
+    if let Some(l) = rec.run_res("LeafNode.from_page", || LeafNode::from_page(d)) {
+        let cc = rec.run("LeafNode.cell_count", || l.cell_count()).unwrap_or(0) as usize;
+        rec.run("LeafNode.free_space", || (l.free_space(), l.next_leaf()));
+        for i in sample_indices(cc, 24) {
+            rec.run_res("LeafNode.slot_at", || l.slot_at(i).map(|s| (s.offset(), s.key_len(), s.prefix_as_u32())));
+            rec.run_res("LeafNode.key_at", || l.key_at(i).map(|k| k.len()));
+            rec.run_res("LeafNode.value_at", || l.value_at(i).map(|k| k.iter().map(|b| *b as u64).sum::<u64>()));
+            rec.run_res("LeafNode.value_len_at", || l.value_len_at(i));
+        }
+        for p in probes {
+            rec.run("LeafNode.find_key", || l.find_key(p));
+        }
+        rec.run("LeafNode.batch_iterator", || {
+            let mut n = 0u64;
+            for (a, b, c) in l.batch_iterator() {
+                n += a as u64 + b as u64 + c as u64;
+                if n == u64::MAX {
+                    break;
+                }
+            }
+            n
+        });
+        for k in [1usize, 8, cc / 2, cc, cc + 9] {
+            rec.run("LeafNode.batch_iterator_from", || l.batch_iterator_from(k).take(20).count());
+        }
+        rec.run("LeafNode.SlotBatch", || {
+            let _ = SlotBatch::load_from_page(d, 0, cc);
+            let _ = SlotBatch::load_from_page(d, cc.saturating_sub(3), cc);
+        });
+    }
+    let mut copy = d.to_vec();
+    if let Some(l) = rec.run_res("LeafNodeMut.from_page", || LeafNodeMut::from_page(&mut copy)) {
+        let cc = rec.run("LeafNodeMut.cell_count", || l.cell_count()).unwrap_or(0) as usize;
+        rec.run("LeafNodeMut.free_space", || l.free_space());
+        for i in sample_indices(cc, 4) {
+            rec.run_res("LeafNodeMut.key_at", || l.key_at(i).map(|k| k.len()));
+            rec.run_res("LeafNodeMut.value_at", || l.value_at(i).map(|k| k.len()));
+        }
+        if let Some(p) = probes.get(3) {
+            rec.run("LeafNodeMut.find_key", || l.find_key(p));
+        }
+    }
+}
+
+fn exec_interior(rec: &mut Rec, base: &Base, blobs: &[Blob]) {
+    let probes: &[Vec<u8>] = match &base.meta {
+        Meta::Interior { probes } => probes,
+        _ => &[],
+    };
+    let buf = ExactBuf::new(&blobs[0].data, 0);
+    let d = buf.slice();
+    if let Some(n) = rec.run_res("InteriorNode.from_page", || InteriorNode::from_page(d)) {
+        let cc = rec.run("InteriorNode.cell_count", || n.cell_count()).unwrap_or(0) as usize;
+        rec.run("InteriorNode.right_child", || n.right_child());
+        for i in sample_indices(cc, 16) {
+            rec.run_res("InteriorNode.slot_at", || n.slot_at(i).map(|s| (s.child_page(), s.offset(), s.key_len())));
+            rec.run_res("InteriorNode.key_at", || n.key_at(i).map(|k| k.len()));
+        }
+        for p in probes {
+            rec.run_res("InteriorNode.find_child", || n.find_child(p));
+        }
+    }
+    let mut copy = d.to_vec();
+    if let Some(n) = rec.run_res("InteriorNodeMut.from_page", || InteriorNodeMut::from_page(&mut copy)) {
+        let cc = rec.run("InteriorNodeMut.cell_count", || n.cell_count()).unwrap_or(0) as usize;
+        rec.run("InteriorNodeMut.free_space", || (n.free_space(), n.right_child()));
+        for i in sample_indices(cc, 2) {
+            rec.run_res("InteriorNodeMut.key_at", || n.key_at(i).map(|k| k.len()));
+        }
+        if let Some(p) = probes.get(3) {
+            rec.run_res("InteriorNodeMut.find_child", || n.find_child(p));
+        }
+    }
+}
+
+fn store_to_blob(s: &MemStore) -> Vec<u8> {
+    let mut v = Vec::with_capacity(s.pages.len() * PAGE);
+    for p in &s.pages {
+        v.extend_from_slice(&p[..]);
+    }
+    v
+}
+
+fn blob_to_store(d: &[u8]) -> MemStore {
+    let np = d.len() / PAGE;
+    let mut s = MemStore::new(np as u32);
+    for p in 0..np {
+        s.pages[p].copy_from_slice(&d[p * PAGE..(p + 1) * PAGE]);
+    }
+    s
+}
+
+fn build_tree_bases(rng: &mut Rng, small: bool, miri: bool) -> Vec<Base> {
+    let mut out = vec![];
+    let specs: Vec<(usize, usize)> = if miri {
+        vec![(24, 2000), (10, 0)]
+    } else if small {
+        vec![(60, 1500), (400, 0)]
+    } else {
+        vec![(60, 1500), (400, 0), (3000, 0), (700, 900), (5, 0), (150, 3000)]
+    };
+    for (i, (n, klen)) in specs.into_iter().enumerate() {
+        let keys = gen_tree_keys(rng, n, klen);
+        let mut order: Vec<usize> = (0..keys.len()).collect();
+        if i % 2 == 0 {
+            rng.shuffle(&mut order);
+        }
+        let mut store = MemStore::new(2);
+        {
+            let mut t = BTree::create(&mut store, 1).expect("btree create");
+            for j in order {
+                let vl = rng.usize(0, 24);
+                let v = rng.bytes(vl);
+                t.insert(&keys[j], &v).expect("btree insert on valid tree");
+            }
+        }
+        let data = store_to_blob(&store);
+        let mut fields = vec![];
+        page_fields(0, &data, false, &mut fields);
+        let probes = probes_from(rng, &keys);
+        out.push(Base { name: format!("btree#{} keys={} key_pad={} pages={} root=1", i, n, klen, data.len() / PAGE), blobs: vec![Blob { name: "pages".into(), data }], fields, meta: Meta::Tree { root: 1, probes } });
+    }
+    out
+}
+
+/// forward / backward scans with a harness-side step bound: a cursor over N pages can yield at
+/// most N * 2046 cells; more steps without an error means the scan does not make progress
+fn scan_forward<S: turdb::storage::Storage>(rec: &mut Rec, dec: &'static str, labels: [&'static str; 3], mut c: turdb::btree::Cursor<'_, S>, bound: u64) {
+    let mut steps = 0u64;
+    loop {
+        if !c.valid() {
+            break;
+        }
+        if rec.run_res(labels[0], || c.key().map(|k| k.len())).is_none() {
+            break;
+        }
+        if rec.run_res(labels[1], || c.value().map(|k| k.len())).is_none() {
+            break;
+        }
+        match rec.run_res(labels[2], || c.advance()) {
+            Some(true) => {}
+            _ => break,
+        }
+        steps += 1;
+        if steps > bound {
+            rec.raise(format!("C23/{}.scan_forward/no_progress", dec), "terminates", json!({"steps": steps, "bound": bound}));
+            break;
+        }
+    }
+    rec.count("scan_steps", steps);
+}
+
+fn scan_backward<S: turdb::storage::Storage>(rec: &mut Rec, dec: &'static str, labels: [&'static str; 3], mut c: turdb::btree::Cursor<'_, S>, bound: u64) {
+    let mut steps = 0u64;
+    loop {
+        if !c.valid() {
+            break;
+        }
+        if rec.run_res(labels[0], || c.key().map(|k| k.len())).is_none() {
+            break;
+        }
+        match rec.run_res(labels[2], || c.prev()) {
+            Some(true) => {}
+            _ => break,
+        }
+        steps += 1;
+        if steps > bound {
+            rec.raise(format!("C23/{}.scan_backward/no_progress", dec), "terminates", json!({"steps": steps, "bound": bound}));
+            break;
+        }
+    }
+    rec.count("scan_steps", steps);
+}
+
+fn exec_tree(rec: &mut Rec, base: &Base, blobs: &[Blob], seed: u64) {
+    let (root, probes) = match &base.meta {
+        Meta::Tree { root, probes } => (*root, probes),
+        _ => return,
+    };
+    let mut store = blob_to_store(&blobs[0].data);
+    let np = store.pages.len() as u64;
+    let bound = np * 2046 + 64;
+    let write = seed % 3 == 0;
+    {
+        let t = match rec.run_res("BTree.new", || BTree::new(&mut store, root)) {
+            Some(t) => t,
+            None => return,
+        };
+        for p in probes.iter().take(8) {
+            rec.run_res("BTree.get", || t.get(p).map(|v| v.map(|x| x.len())));
+        }
+        if let Some(p) = probes.get(4) {
+            if let Some(Some(h)) = rec.run_res("BTree.search", || t.search(p)) {
+                rec.run_res("BTree.get_key", || t.get_key(&h).map(|k| k.len()));
+                rec.run_res("BTree.get_value", || t.get_value(&h).map(|k| k.len()));
+            }
+        }
+        if let Some(c) = rec.run_res("BTree.cursor_first", || t.cursor_first()) {
+            scan_forward(rec, "BTree", ["BTree.cursor_key", "BTree.cursor_value", "BTree.cursor_advance"], c, bound);
+        }
+        if let Some(c) = rec.run_res("BTree.cursor_last", || t.cursor_last()) {
+            scan_backward(rec, "BTree", ["BTree.cursor_key", "BTree.cursor_value", "BTree.cursor_prev"], c, bound);
+        }
+        for p in probes.iter().skip(3).take(3) {
+            if let Some(mut c) = rec.run_res("BTree.cursor_seek", || t.cursor_seek(p)) {
+                for _ in 0..8 {
+                    if !c.valid() || rec.run_res("BTree.cursor_key", || c.key().map(|k| k.len())).is_none() {
+                        break;
+                    }
+                    if rec.run_res("BTree.cursor_advance", || c.advance()) != Some(true) {
+                        break;
+                    }
+                }
+            }
+        }
+    }
+    if write {
+        // an INSERT / DELETE after opening a corrupted file reaches these paths
+        if let Some(mut t) = rec.run_res("BTree.new", || BTree::new(&mut store, root)) {
+            let k1 = [b"zzzz-new-".to_vec(), seed.to_be_bytes().to_vec()].concat();
+            rec.run_res("BTree.insert", || t.insert(&k1, b"value"));
+            let big = vec![0x41u8; 1800];
+            rec.run_res("BTree.insert", || t.insert(&[&[0x10u8][..], &seed.to_be_bytes()[..]].concat(), &big));
+            if let Some(p) = probes.get(5) {
+                rec.run_res("BTree.delete", || t.delete(p));
+                rec.run_res("BTree.update", || t.update(p, b"u"));
+            }
+            if let Some(c) = rec.run_res("BTree.cursor_first", || t.cursor_first()) {
+                scan_forward(rec, "BTree", ["BTree.cursor_key", "BTree.cursor_value", "BTree.cursor_advance"], c, (store_pages_hint(np) + 8) * 2046);
+            }
+        }
+    }
+}
+
+fn store_pages_hint(np: u64) -> u64 {
+    np + 64
+}
+
+// ------------------------------------------------------------------------------------------
+// file-level units (not under Miri)
+// ------------------------------------------------------------------------------------------
+use turdb::storage::{MmapStorage, Wal, WalSegment};
+
+fn fresh_dir(p: &Path) {
+    let _ = std::fs::remove_dir_all(p);
+    std::fs::create_dir_all(p).expect("create work dir");
+}
+
+fn write_blobs(dir: &Path, blobs: &[Blob]) {
+    for b in blobs {
+        let p = dir.join(&b.name);
+        if let Some(par) = p.parent() {
+            let _ = std::fs::create_dir_all(par);
+        }
+        std::fs::write(&p, &b.data).expect("write case file");
+    }
+}
+
+fn read_dir_blobs(dir: &Path) -> Vec<Blob> {
+    fn walk(root: &Path, d: &Path, out: &mut Vec<Blob>) {
+        let mut ents: Vec<_> = std::fs::read_dir(d).map(|r| r.filter_map(|e| e.ok()).collect()).unwrap_or_default();
+        ents.sort_by_key(|e| e.file_name());
+        for e in ents {
+            let p = e.path();
+            if p.is_dir() {
+                walk(root, &p, out);
+            } else if let Ok(data) = std::fs::read(&p) {
+                out.push(Blob { name: p.strip_prefix(root).unwrap().to_string_lossy().to_string(), data });
+            }
+        }
+    }
+    let mut out = vec![];
+    walk(dir, dir, &mut out);
+    out
+}
+
+/// CRC-64/ECMA-182 (poly 0x42F0E1EBA9EA3693, init 0, not reflected) -- the frame checksum
+fn crc64_ecma(chunks: &[&[u8]]) -> u64 {
+    use std::sync::OnceLock;
+    static TABLE: OnceLock<[u64; 256]> = OnceLock::new();
+    let t = TABLE.get_or_init(|| {
+        let mut t = [0u64; 256];
+        for i in 0..256u64 {
+            let mut c = i << 56;
+            for _ in 0..8 {
+                c = if c & (1 << 63) != 0 { (c << 1) ^ 0x42F0E1EBA9EA3693 } else { c << 1 };
+            }
+            t[i as usize] = c;
+        }
+        t
+    });
+    let mut crc = 0u64;
+    for ch in chunks {
+        for b in ch.iter() {
+            crc = t[((crc >> 56) as u8 ^ *b) as usize] ^ (crc << 8);
+        }
+    }
+    crc
+}
+
+const FRAME: usize = 32 + PAGE;
+
+fn wal_fix_checksums(d: &mut [u8]) {
+    let nf = d.len() / FRAME;
+    for f in 0..nf {
+        let b = f * FRAME;
+        let c = crc64_ecma(&[&d[b..b + 24], &d[b + 32..b + FRAME]]);
+        d[b + 24..b + 32].copy_from_slice(&c.to_le_bytes());
+    }
+}
+
+fn build_wal_bases(rng: &mut Rng, work: &Path) -> Vec<Base> {
+    let mut out = vec![];
+    for i in 0..3 {
+        let dir = work.join(format!("walbase{}", i));
+        fresh_dir(&dir);
+        let nframes = [1usize, 4, 7][i];
+        {
+            let wal = Wal::create(&dir).expect("wal create");
+            wal.set_sync_mode(turdb::storage::SyncMode::Off);
+            for f in 0..nframes {
+                let mut page = vec![0u8; PAGE];
+                {
+                    let mut l = LeafNodeMut::init(&mut page).unwrap();
+                    let _ = l.insert_cell(format!("k{}", f).as_bytes(), b"v");
+                }
+                wal.write_frame_with_file_id((f % 3) as u32, 3, &page, 1 + (f % 2) as u64).expect("wal write");
+            }
+            wal.sync().expect("wal sync");
+        }
+        let data = std::fs::read(dir.join("wal.000001")).expect("read wal segment");
+        // self-check of the harness CRC against the real writer
+        let mut copy = data.clone();
+        wal_fix_checksums(&mut copy);
+        let fixable = copy == data && data.len() == nframes * FRAME;
+        let mut hdr = vec![];
+        let mut ptr = vec![];
+        for f in 0..nframes {
+            let b = (f * FRAME) as u32;
+            hdr.push(Field { blob: 0, off: b, width: 8, ptr_max: 0 });
+            hdr.push(Field { blob: 0, off: b + 7, width: 1, ptr_max: 0 });
+            ptr.push(Field { blob: 0, off: b + 8, width: 4, ptr_max: 6 });
+            ptr.push(Field { blob: 0, off: b + 12, width: 4, ptr_max: 6 });
+            hdr.push(Field { blob: 0, off: b + 16, width: 4, ptr_max: 0 });
+            hdr.push(Field { blob: 0, off: b + 20, width: 4, ptr_max: 0 });
+            hdr.push(Field { blob: 0, off: b + 24, width: 8, ptr_max: 0 });
+        }
+        let _ = std::fs::remove_dir_all(&dir);
+        out.push(Base { name: format!("wal_segment#{} frames={} (crc self-check {})", i, nframes, fixable), blobs: vec![Blob { name: "wal.000001".into(), data }], fields: vec![hdr, ptr], meta: Meta::Wal { fixable } });
+    }
+    out
+}
+
+fn exec_wal(rec: &mut Rec, base: &Base, blobs: &[Blob], seed: u64, work: &Path) {
+    let fixable = matches!(&base.meta, Meta::Wal { fixable: true });
+    let dir = work.join("wal");
+    fresh_dir(&dir);
+    let mut data = blobs[0].data.clone();
+    // half of the cases carry consistent checksums, so that the frame *contents* reach recovery
+    let refix = fixable && seed % 2 == 0;
+    if refix {
+        wal_fix_checksums(&mut data);
+    }
+    rec.count(if refix { "wal_cases_checksum_fixed" } else { "wal_cases_checksum_raw" }, 1);
+    std::fs::write(dir.join("wal.000001"), &data).expect("write wal");
+    if seed % 7 == 0 {
+        // a second, garbage segment
+        std::fs::write(dir.join("wal.000002"), &data[..data.len().min(100)]).expect("write wal2");
+    }
+    let seg_path = dir.join("wal.000001");
+    if let Some(mut seg) = rec.run_res("WalSegment.open", || WalSegment::open(&seg_path, 1)) {
+        let _ = rec.run_res("WalSegment.reset_position", || seg.reset_position());
+        for _ in 0..64 {
+            match rec.run_res("WalSegment.read_frame", || seg.read_frame()) {
+                Some((h, _)) => {
+                    rec.run("WalFrameHeader.getters", || (h.frame_type(), h.actual_file_id(), h.undo_table_id(), h.undo_txn_id(), h.is_undo_frame(), h.is_redo_frame()));
+                }
+                None => break,
+            }
+        }
+        let _ = rec.run_res("WalSegment.reset_position", || seg.reset_position());
+        for _ in 0..64 {
+            if rec.run_res("WalSegment.read_header_only", || seg.read_header_only()).is_none() {
+                break;
+            }
+        }
+        let mut buf = vec![0u8; FRAME];
+        let _ = rec.run_res("WalSegment.reset_position", || seg.reset_position());
+        for _ in 0..64 {
+            if rec.run_res("WalSegment.read_frame_into", || seg.read_frame_into(&mut buf)).is_none() {
+                break;
+            }
+        }
+    }
+    let tbd = work.join("wal_target.tbd");
+    let _ = std::fs::remove_file(&tbd);
+    let mut storage = match MmapStorage::create(&tbd, 3) {
+        Ok(s) => s,
+        Err(_) => return,
+    };
+    if let Some(wal) = rec.run_res("Wal.open", || Wal::open(&dir)) {
+        rec.run("Wal.counters", || (wal.frame_count(), wal.total_wal_size_bytes(), wal.needs_checkpoint(), wal.current_offset()));
+        for fid in [0u64, 1, 2] {
+            for p in [0u32, 1, 2, 5] {
+                rec.run_res("Wal.read_page", || wal.read_page(fid, p).map(|x| x.map(|v| v.len())));
+            }
+        }
+        rec.run_res("Wal.recover_for_file", || wal.recover_for_file(&mut storage, 1));
+        rec.run_res("Wal.recover", || wal.recover(&mut storage));
+        rec.run_res("Wal.replay_segments_to_storage", || Wal::replay_segments_to_storage(&[seg_path.clone()], &mut storage, 2));
+    }
+    drop(storage);
+    let _ = std::fs::remove_file(&tbd);
+}
+
+fn build_catalog_file_bases(rng: &mut Rng, work: &Path) -> Vec<Base> {
+    let mut out = vec![];
+    for i in 0..4 {
+        let cat = gen_catalog(rng);
+        let p = work.join(format!("catbase{}.catalog", i));
+        CatalogPersistence::save(&cat, &p).expect("catalog save");
+        let data = std::fs::read(&p).expect("read catalog file");
+        let _ = std::fs::remove_file(&p);
+        let mut fields = header_fields();
+        fields.extend(catalog_fields(&data, 128));
+        out.push(Base { name: format!("catalog_file#{} ({} bytes)", i, data.len()), blobs: vec![Blob { name: "turdb.catalog".into(), data }], fields, meta: Meta::None });
+    }
+    out
+}
+
+fn exec_catalog_file(rec: &mut Rec, blobs: &[Blob], work: &Path) {
+    let p = work.join("case.catalog");
+    std::fs::write(&p, &blobs[0].data).expect("write catalog");
+    let mut cat = Catalog::new();
+    rec.run_res("CatalogPersistence.load", || CatalogPersistence::load(&p, &mut cat));
+}
+
+fn build_btree_file_bases(rng: &mut Rng) -> Vec<Base> {
+    build_tree_bases(rng, true, false)
+}
+
+fn exec_btree_file(rec: &mut Rec, base: &Base, blobs: &[Blob], work: &Path) {
+    let (root, probes) = match &base.meta {
+        Meta::Tree { root, probes } => (*root, probes),
+        _ => return,
+    };
+    let p = work.join("case.tbd");
+    std::fs::write(&p, &blobs[0].data).expect("write tbd");
+    let storage = match rec.run_res("MmapStorage.open", || MmapStorage::open(&p)) {
+        Some(s) => s,
+        None => return,
+    };
+    let bound = storage.page_count() as u64 * 2046 + 64;
+    if let Some(r) = rec.run_res("BTreeReader.new", || BTreeReader::new(&storage, root)) {
+        for pr in probes.iter().take(8) {
+            rec.run_res("BTreeReader.get", || r.get(pr).map(|v| v.map(|x| x.len())));
+        }
+        if let Some(c) = rec.run_res("BTreeReader.cursor_first", || r.cursor_first()) {
+            scan_forward(rec, "BTreeReader", ["BTreeReader.cursor_key", "BTreeReader.cursor_value", "BTreeReader.cursor_advance"], c, bound);
+        }
+        if let Some(c) = rec.run_res("BTreeReader.cursor_last", || r.cursor_last()) {
+            scan_backward(rec, "BTreeReader", ["BTreeReader.cursor_key", "BTreeReader.cursor_value", "BTreeReader.cursor_prev"], c, bound);
+        }
+        for pr in probes.iter().skip(3).take(3) {
+            if let Some(mut c) = rec.run_res("BTreeReader.cursor_seek", || r.cursor_seek(pr)) {
+                for _ in 0..8 {
+                    if !c.valid() || rec.run_res("BTreeReader.cursor_key", || c.key().map(|k| k.len())).is_none() {
+                        break;
+                    }
+                    if rec.run_res("BTreeReader.cursor_advance", || c.advance()) != Some(true) {
+                        break;
+                    }
+                }
+            }
+        }
+    }
+}
+
+fn hnsw_vec(i: u64, dims: usize) -> Vec<f32> {
+    (0..dims).map(|d| ((i * 31 + d as u64 * 7) % 17) as f32 / 4.0).collect()
+}
+
+fn build_hnsw_file_bases(rng: &mut Rng, work: &Path) -> Vec<Base> {
+    use turdb::hnsw::PersistentHnswIndex;
+    let mut out = vec![];
+    for (i, n) in [3u64, 40, 150].into_iter().enumerate() {
+        let p = work.join(format!("hnswbase{}.hnsw", i));
+        let _ = std::fs::remove_file(&p);
+        let dims = 4usize;
+        {
+            // PersistentHnswIndex::insert fails on valid input in this tree (slot offsets above 8191 do
+            // not fit the 13-bit slot field), so the graph is laid down node by node through allocate_node
+            let mut ix = PersistentHnswIndex::create(&p, 1, 2, dims as u16, 8, 32, 16, DistanceFunction::L2, QuantizationType::None).expect("hnsw create");
+            for r in 0..n {
+                let ml = (r % 3) as u8;
+                let mut node = HnswNode::new(r + 1, ml);
+                for k in 0..(r % 6) {
+                    node.add_level0_neighbor(NodeId::new(1 + (k as u32 % 2), (k % 5) as u16));
+                }
+                for l in 1..=ml {
+                    node.add_neighbor_at_level(l, NodeId::new(1, (r % 4) as u16));
+                }
+                ix.allocate_node(&node).expect("hnsw allocate_node");
+            }
+            ix.sync().expect("hnsw sync");
+        }
+        let mut data = std::fs::read(&p).expect("read hnsw file");
+        let _ = std::fs::remove_file(&p);
+        // entry point = first node (page 1, slot 0), as `insert` would have recorded it
+        if data.len() >= 2 * PAGE {
+            data[44..48].copy_from_slice(&1u32.to_le_bytes());
+            data[48..50].copy_from_slice(&0u16.to_le_bytes());
+            data[50] = 0;
+        }
+        let mut fields = vec![];
+        page_fields(0, &data, true, &mut fields);
+        // node payload bytes: level / count / neighbour ids
+        let mut nodes = vec![];
+        for pg in 1..data.len() / PAGE {
+            let b = pg * PAGE;
+            let sc = u16::from_le_bytes([data[b + 16], data[b + 17]]) as usize;
+            for s in 0..sc.min(8) {
+                let so = b + 64 + 4 * s;
+                let off = (u16::from_le_bytes([data[so], data[so + 1]]) & 0x1FFF) as usize;
+                if off + 16 < PAGE {
+                    nodes.push(Field { blob: 0, off: (b + off + 8) as u32, width: 1, ptr_max: 0 });
+                    nodes.push(Field { blob: 0, off: (b + off + 9) as u32, width: 1, ptr_max: 0 });
+                    nodes.push(Field { blob: 0, off: (b + off + 10) as u32, width: 4, ptr_max: (data.len() / PAGE) as u32 });
+                    nodes.push(Field { blob: 0, off: (b + off + 14) as u32, width: 2, ptr_max: 0 });
+                }
+            }
+        }
+        if !nodes.is_empty() {
+            fields.push(nodes);
+        }
+        out.push(Base { name: format!("hnsw_file#{} nodes={} pages={}", i, n, data.len() / PAGE), blobs: vec![Blob { name: "emb_idx.hnsw".into(), data }], fields, meta: Meta::Hnsw { kind: "file", dims } });
+    }
+    out
+}
+
+fn exec_hnsw_file(rec: &mut Rec, base: &Base, blobs: &[Blob], seed: u64, work: &Path) {
+    use turdb::hnsw::storage::HnswStorage;
+    use turdb::hnsw::PersistentHnswIndex;
+    let p = work.join("case.hnsw");
+    std::fs::write(&p, &blobs[0].data).expect("write hnsw");
+    if let Some(st) = rec.run_res("HnswStorage.open", || HnswStorage::open(&p)) {
+        rec.run_res("HnswStorage.header", || st.header().map(|h| (h.node_count(), h.dimensions(), h.entry_point().map(|e| e.slot_index()))));
+        let np = st.page_count();
+        for pg in 1..np.min(4) {
+            if let Some(d) = rec.run_res("HnswStorage.get_page", || st.get_page(pg)) {
+                hnsw_page_ops(rec, d);
+            }
+        }
+    }
+    let mut ix = match rec.run_res("PersistentHnswIndex.open", || PersistentHnswIndex::open(&p)) {
+        Some(ix) => ix,
+        None => return,
+    };
+    let dims = rec.run("PersistentHnswIndex.index", || (ix.index().dimensions(), ix.index().node_count(), ix.index().entry_point().map(|e| e.page_no()), ix.index().max_level())).map(|t| t.0 as usize).unwrap_or(4);
+    for r in [1u64, 2, 40, 1000] {
+        rec.run("PersistentHnswIndex.find_node_by_row_id", || ix.find_node_by_row_id(r).map(|n| n.page_no()));
+    }
+    for pg in 0..4u32 {
+        for s in [0u16, 1, 7, 300] {
+            rec.run_res("PersistentHnswIndex.read_node", || ix.read_node(NodeId::new(pg, s)).map(|n| n.row_id()));
+        }
+    }
+    if dims <= 4096 {
+        let q = hnsw_vec(seed % 50, dims);
+        // search context sized as the engine does (node_count.max(1000)), capped so that an absurd
+        // header value is exercised by `insert` below (which sizes it itself), not by the harness
+        let mut sctx = turdb::hnsw::search::HnswSearchContext::new(16, 1000);
+        rec.run_res("PersistentHnswIndex.search", || ix.search(&q, 3, &mut sctx, |row| Some(hnsw_vec(row.wrapping_sub(1), dims))).map(|r| r.len()));
+        if seed % 2 == 0 {
+            rec.run_res("PersistentHnswIndex.insert", || ix.insert_with_callback(9_000_000 + seed % 100, &q, 0.3, |row| Some(hnsw_vec(row.wrapping_sub(1), dims))).map(|n| n.page_no()));
+            rec.run_res("PersistentHnswIndex.delete_by_row_id", || ix.delete_by_row_id(2));
+            rec.run_res("PersistentHnswIndex.sync", || ix.sync());
+        }
+    }
+}
+
+// ------------------------------------------------------------------------------------------
+// database level
+// ------------------------------------------------------------------------------------------
+use turdb::Database;
+
+const DB_SETUP: &[&str] = &[
+    "CREATE TABLE t1 (id BIGINT PRIMARY KEY, name TEXT, score REAL, flag BOOLEAN, data BLOB, n INT, d DOUBLE PRECISION)",
+    "CREATE INDEX idx_n ON t1 (n)",
+    "CREATE TABLE emb (id BIGINT PRIMARY KEY, label TEXT, vec VECTOR(4))",
+    "CREATE INDEX idx_vec ON emb USING HNSW (vec)",
+    "CREATE TABLE t2 (k VARCHAR(20) PRIMARY KEY, v SMALLINT, ts TIMESTAMP, j JSONB)",
+];
+
+/// create the two base images; returns (dir, description) per image
+fn create_db_base(root: &Path, wal: bool) -> Result<PathBuf, String> {
+    let live = root.join(if wal { "live-wal" } else { "live-nowal" });
+    let img = root.join(if wal { "base-wal" } else { "base-nowal" });
+    let _ = std::fs::remove_dir_all(&live);
+    let _ = std::fs::remove_dir_all(&img);
+    let r = guard(|| -> Result<(), String> {
+        let db = Database::create(&live).map_err(|e| format!("create: {e}"))?;
+        if wal {
+            db.execute("PRAGMA wal = ON").map_err(|e| format!("pragma: {e}"))?;
+        }
+        for s in DB_SETUP {
+            db.execute(s).map_err(|e| format!("{s}: {e}"))?;
+        }
+        for i in 0..300 {
+            db.execute(&format!("INSERT INTO t1 VALUES ({}, 'name{}', {}.5, {}, x'0102{:02x}', {}, {}.25)", i, i, i, if i % 2 == 0 { "TRUE" } else { "FALSE" }, i % 256, i % 17, i)).map_err(|e| format!("insert t1: {e}"))?;
+        }
+        let big = "x".repeat(5000);
+        db.execute(&format!("INSERT INTO t1 VALUES (1000, '{}', 1.0, TRUE, x'00', 3, 2.0)", big)).map_err(|e| format!("insert toast: {e}"))?;
+        for i in 0..20 {
+            db.execute(&format!("INSERT INTO emb VALUES ({}, 'l{}', '[{}.0,0.5,0.25,{}.0]')", i, i, i, 20 - i)).map_err(|e| format!("insert emb: {e}"))?;
+        }
+        for i in 0..40 {
+            db.execute(&format!("INSERT INTO t2 VALUES ('key{:03}', {}, '2024-01-{:02} 10:00:00', '{{\"a\": {}, \"b\": [1,2,3]}}')", i, i, 1 + i % 28, i)).map_err(|e| format!("insert t2: {e}"))?;
+        }
+        if wal {
+            // crash image: copy while the database is open, WAL segments still hold frames
+            copy_dir(&live, &img).map_err(|e| format!("copy: {e}"))?;
+            let _ = db.close();
+        } else {
+            db.close().map_err(|e| format!("close: {e}"))?;
+            drop(db);
+            copy_dir(&live, &img).map_err(|e| format!("copy: {e}"))?;
+        }
+        Ok(())
+    });
+    let _ = std::fs::remove_dir_all(&live);
+    match r {
+        Ok(Ok(())) => Ok(img),
+        Ok(Err(e)) => Err(e),
+        Err((site, msg)) => Err(format!("panic while building the valid database: {} {}", site, msg)),
+    }
+}
+
+fn copy_dir(from: &Path, to: &Path) -> std::io::Result<()> {
+    std::fs::create_dir_all(to)?;
+    for e in std::fs::read_dir(from)? {
+        let e = e?;
+        let p = e.path();
+        let t = to.join(e.file_name());
+        if p.is_dir() {
+            copy_dir(&p, &t)?;
+        } else {
+            std::fs::copy(&p, &t)?;
+        }
+    }
+    Ok(())
+}
+
+fn file_kind(name: &str) -> &'static str {
+    if name.starts_with("wal/") {
+        "wal"
+    } else if name.ends_with(".catalog") {
+        "catalog"
+    } else if name.ends_with(".meta") {
+        "meta"
+    } else if name.ends_with(".hnsw") {
+        "hnsw"
+    } else if name.starts_with("turdb_catalog/") {
+        "systbd"
+    } else if name.ends_with("_toast.tbd") {
+        "toast"
+    } else if name.ends_with(".tbd") {
+        "tbd"
+    } else if name.ends_with(".idx") {
+        "idx"
+    } else {
+        "other"
+    }
+}
+
+fn build_db_base(dir: &Path, wal: bool) -> Vec<Base> {
+    let blobs = read_dir_blobs(dir);
+    // one base per file kind focus: the mutator picks fields of that file only, so every kind is covered evenly
+    let mut out = vec![];
+    for (bi, b) in blobs.iter().enumerate() {
+        let mut fields = vec![];
+        match file_kind(&b.name) {
+            "catalog" => {
+                fields = header_fields();
+                for g in fields.iter_mut() {
+                    for f in g.iter_mut() {
+                        f.blob = bi as u16;
+                    }
+                }
+                let mut cf = catalog_fields(&b.data, 128);
+                for g in cf.iter_mut() {
+                    for f in g.iter_mut() {
+                        f.blob = bi as u16;
+                    }
+                }
+                fields.extend(cf);
+            }
+            "wal" => {
+                let nf = b.data.len() / FRAME;
+                let mut h = vec![];
+                for f in 0..nf.min(64) {
+                    let o = (f * FRAME) as u32;
+                    for (d, w) in [(0u32, 8u8), (8, 4), (12, 4), (16, 4), (20, 4), (24, 8)] {
+                        h.push(Field { blob: bi as u16, off: o + d, width: w, ptr_max: if w == 4 { 8 } else { 0 } });
+                    }
+                }
+                if !h.is_empty() {
+                    fields.push(h);
+                }
+                // page images inside the frames
+                for f in 0..nf.min(16) {
+                    let o = f * FRAME + 32;
+                    let mut sub = vec![];
+                    page_fields(bi as u16, &b.data[o..o + PAGE], false, &mut sub);
+                    for g in sub.iter_mut() {
+                        for fl in g.iter_mut() {
+                            fl.off += o as u32;
+                        }
+                    }
+                    fields.extend(sub);
+                }
+            }
+            _ => page_fields(bi as u16, &b.data, true, &mut fields),
+        }
+        if b.data.is_empty() {
+            continue;
+        }
+        out.push(Base { name: format!("db({}) focus={} [{} bytes]", if wal { "wal crash image" } else { "closed, wal off" }, b.name, b.data.len()), blobs: blobs.clone(), fields, meta: Meta::Db { wal, focus: bi } });
+    }
+    out
+}
+
+fn exec_db(rec: &mut Rec, base: &Base, blobs: &[Blob], seed: u64, work: &Path, edits_blob: Option<usize>) {
+    let dir = work.join("db");
+    fresh_dir(&dir);
+    write_blobs(&dir, blobs);
+    if let Some(b) = edits_blob {
+        rec.count(&format!("db_cases_{}", file_kind(&blobs[b].name)), 1);
+    }
+    let db = match rec.run_res("Database.open", || Database::open(&dir)) {
+        Some(db) => db,
+        None => return,
+    };
+    let panics0 = rec.panics;
+    let q = |rec: &mut Rec, label: &'static str, sql: &str| -> bool {
+        rec.run_res(label, || db.query(sql).map(|r| r.len()));
+        rec.panics == panics0
+    };
+    let ok = q(rec, "Database.scan", "SELECT * FROM t1")
+        && q(rec, "Database.scan", "SELECT * FROM emb")
+        && q(rec, "Database.scan", "SELECT * FROM t2")
+        && q(rec, "Database.index_lookup", "SELECT id, name FROM t1 WHERE n = 3")
+        && q(rec, "Database.pk_lookup", "SELECT * FROM t1 WHERE id = 42")
+        && q(rec, "Database.pk_lookup", "SELECT * FROM t1 WHERE id = 1000")
+        && q(rec, "Database.pk_lookup", "SELECT v FROM t2 WHERE k = 'key007'")
+        && q(rec, "Database.aggregate", "SELECT COUNT(*), MAX(n) FROM t1 WHERE id > 100")
+        && q(rec, "Database.knn", "SELECT id FROM emb ORDER BY vec <-> '[1.0,0.5,0.25,19.0]' LIMIT 3");
+    if ok {
+        let id = 5000 + seed % 1000;
+        rec.run_res("Database.insert", || db.execute(&format!("INSERT INTO t1 VALUES ({}, 'fresh', 0.5, TRUE, x'ff', 3, 1.5)", id)).map(|_| ()));
+        if rec.panics == panics0 {
+            rec.run_res("Database.insert", || db.execute("INSERT INTO emb VALUES (900, 'n', '[0.5,0.5,0.5,0.5]')").map(|_| ()));
+        }
+        if rec.panics == panics0 {
+            rec.run_res("Database.update", || db.execute("UPDATE t1 SET n = 4 WHERE id = 7").map(|_| ()));
+            rec.run_res("Database.delete", || db.execute("DELETE FROM t2 WHERE k = 'key001'").map(|_| ()));
+        }
+        if rec.panics == panics0 {
+            q(rec, "Database.scan_after_write", "SELECT * FROM t1");
+        }
+    }
+    rec.run_res("Database.close", || db.close().map(|_| ()));
+    rec.run("Database.drop", move || drop(db));
+}
+
+// ------------------------------------------------------------------------------------------
+// units
+// ------------------------------------------------------------------------------------------
+#[derive(Clone, Copy, PartialEq)]
+enum Kind {
+    Mem,
+    File,
+    Db,
+}
+
+struct UnitSpec {
+    name: &'static str,
+    kind: Kind,
+    quick: u64,
+    thorough: u64,
+    chunk_quick: u64,
+    chunk_thorough: u64,
+    hang_q: u64,
+    hang_t: u64,
+    raw_pct: u64,
+    page_blobs: bool,
+}
+
+const UNITS: &[UnitSpec] = &[
+    UnitSpec { name: "record", kind: Kind::Mem, quick: 24_000, thorough: 1_200_000, chunk_quick: 6_000, chunk_thorough: 100_000, hang_q: 5, hang_t: 8, raw_pct: 12, page_blobs: false },
+    UnitSpec { name: "jsonb", kind: Kind::Mem, quick: 24_000, thorough: 1_200_000, chunk_quick: 12_000, chunk_thorough: 150_000, hang_q: 5, hang_t: 8, raw_pct: 20, page_blobs: false },
+    UnitSpec { name: "array", kind: Kind::Mem, quick: 20_000, thorough: 1_000_000, chunk_quick: 10_000, chunk_thorough: 250_000, hang_q: 5, hang_t: 8, raw_pct: 20, page_blobs: false },
+    UnitSpec { name: "key", kind: Kind::Mem, quick: 60_000, thorough: 4_000_000, chunk_quick: 30_000, chunk_thorough: 500_000, hang_q: 5, hang_t: 8, raw_pct: 25, page_blobs: false },
+    UnitSpec { name: "varint", kind: Kind::Mem, quick: 40_000, thorough: 2_000_000, chunk_quick: 40_000, chunk_thorough: 1_000_000, hang_q: 5, hang_t: 8, raw_pct: 50, page_blobs: false },
+    UnitSpec { name: "catalog", kind: Kind::Mem, quick: 24_000, thorough: 1_500_000, chunk_quick: 12_000, chunk_thorough: 250_000, hang_q: 5, hang_t: 8, raw_pct: 10, page_blobs: false },
+    UnitSpec { name: "header", kind: Kind::Mem, quick: 24_000, thorough: 1_000_000, chunk_quick: 24_000, chunk_thorough: 500_000, hang_q: 5, hang_t: 8, raw_pct: 5, page_blobs: false },
+    UnitSpec { name: "hnsw", kind: Kind::Mem, quick: 16_000, thorough: 800_000, chunk_quick: 8_000, chunk_thorough: 200_000, hang_q: 5, hang_t: 8, raw_pct: 8, page_blobs: true },
+    UnitSpec { name: "leaf", kind: Kind::Mem, quick: 16_000, thorough: 800_000, chunk_quick: 4_000, chunk_thorough: 100_000, hang_q: 5, hang_t: 8, raw_pct: 8, page_blobs: true },
+    UnitSpec { name: "interior", kind: Kind::Mem, quick: 16_000, thorough: 800_000, chunk_quick: 8_000, chunk_thorough: 200_000, hang_q: 5, hang_t: 8, raw_pct: 8, page_blobs: true },
+    UnitSpec { name: "btree", kind: Kind::Mem, quick: 3_000, thorough: 120_000, chunk_quick: 500, chunk_thorough: 5_000, hang_q: 5, hang_t: 8, raw_pct: 0, page_blobs: true },
+    UnitSpec { name: "catalog_file", kind: Kind::File, quick: 3_000, thorough: 100_000, chunk_quick: 1_000, chunk_thorough: 20_000, hang_q: 6, hang_t: 10, raw_pct: 5, page_blobs: false },
+    UnitSpec { name: "wal_file", kind: Kind::File, quick: 600, thorough: 30_000, chunk_quick: 150, chunk_thorough: 2_500, hang_q: 6, hang_t: 10, raw_pct: 3, page_blobs: false },
+    UnitSpec { name: "btree_file", kind: Kind::File, quick: 1_200, thorough: 60_000, chunk_quick: 150, chunk_thorough: 2_500, hang_q: 6, hang_t: 10, raw_pct: 0, page_blobs: true },
+    UnitSpec { name: "hnsw_file", kind: Kind::File, quick: 1_200, thorough: 60_000, chunk_quick: 300, chunk_thorough: 5_000, hang_q: 6, hang_t: 10, raw_pct: 0, page_blobs: true },
+    UnitSpec { name: "db_nowal", kind: Kind::Db, quick: 900, thorough: 40_000, chunk_quick: 100, chunk_thorough: 1_000, hang_q: 10, hang_t: 20, raw_pct: 0, page_blobs: true },
+    UnitSpec { name: "db_wal", kind: Kind::Db, quick: 600, thorough: 30_000, chunk_quick: 100, chunk_thorough: 1_000, hang_q: 10, hang_t: 20, raw_pct: 0, page_blobs: true },
+];
+
+fn unit_spec(name: &str) -> Option<&'static UnitSpec> {
+    UNITS.iter().find(|u| u.name == name)
+}
+
+struct Env {
+    work: PathBuf,
+    dbroot: PathBuf,
+    small: bool,
+    base_seed: u64,
+    seed: u64,
+    tier: String,
+}
+
+fn base_seed(seed: u64) -> u64 {
+    Rng::derive(seed, 23).next()
+}
+
+fn build_bases(u: &UnitSpec, env: &Env) -> Vec<Base> {
+    let mut rng = Rng::new(env.base_seed ^ fnv(u.name.as_bytes()) ^ 0xBA5E);
+    let small = env.small;
+    match u.name {
+        "record" => build_record_bases(&mut rng, small),
+        "jsonb" => build_jsonb_bases(&mut rng, small),
+        "array" => build_array_bases(&mut rng, small),
+        "key" => build_key_bases(&mut rng, small),
+        "varint" => build_varint_bases(&mut rng),
+        "catalog" => build_catalog_bases(&mut rng, small),
+        "header" => build_header_bases(&mut rng),
+        "hnsw" => build_hnsw_bases(&mut rng, small),
+        "leaf" => build_leaf_bases(&mut rng, small),
+        "interior" => build_interior_bases(&mut rng, small),
+        "btree" => build_tree_bases(&mut rng, small, cfg!(miri)),
+        "catalog_file" => build_catalog_file_bases(&mut rng, &env.work),
+        "wal_file" => build_wal_bases(&mut rng, &env.work),
+        "btree_file" => build_btree_file_bases(&mut rng),
+        "hnsw_file" => build_hnsw_file_bases(&mut rng, &env.work),
+        "db_nowal" => build_db_base(&env.dbroot.join("base-nowal"), false),
+        "db_wal" => build_db_base(&env.dbroot.join("base-wal"), true),
+        _ => vec![],
+    }
+}
+
+fn gen_case(u: &UnitSpec, bases: &[Base], env: &Env, idx: u64) -> Case {
+    let mut rng = Rng::new(env.base_seed ^ fnv(u.name.as_bytes()).rotate_left(17) ^ idx.wrapping_mul(0x9E3779B97F4A7C15));
+    let base = rng.below(bases.len() as u64) as usize;
+    let seed = rng.next();
+    if u.name == "key" && !cfg!(miri) && idx % 1000 == 7 && idx < 8000 {
+        // second round: as deep as fits the u16 key length of a B-tree slot (<= 65535 bytes)
+        let k = idx / 1000;
+        let depth = if k < 4 { 3_000 } else if k % 4 == 0 { 13_000 } else { 32_000 };
+        return Case { base, raw: Some(deep_key(k, depth)), edits: vec![], seed, tag: "crafted_deep_nesting" };
+    }
+    if rng.below(100) < u.raw_pct {
+        let mut raw = random_bytes_input(&mut rng, u.page_blobs);
+        let b0 = &bases[base].blobs[0].data;
+        match u.name {
+            "leaf" | "interior" | "hnsw" if raw.len() == PAGE => raw[0] = b0.first().copied().unwrap_or(2),
+            "key" if !raw.is_empty() && rng.chance(1, 2) => raw[0] = *rng.pick(&[0x12u8, 0x16, 0x20, 0x21, 0x30, 0x33, 0x34, 0x40, 0x41, 0x42, 0x54, 0x55, 0x56, 0x60, 0x61, 0x62, 0x63, 0x64, 0x65, 0x70]),
+            "varint" if !raw.is_empty() && rng.chance(3, 4) => raw[0] = 241 + rng.below(15) as u8,
+            "header" | "catalog_file" => {
+                // keep the magic so the random tail is looked at
+                let n = raw.len().min(16).min(b0.len());
+                raw[..n].copy_from_slice(&b0[..n]);
+            }
+            _ => {}
+        }
+        return Case { base, raw: Some(raw), edits: vec![], seed, tag: "random_bytes" };
+    }
+    let focus = match &bases[base].meta {
+        Meta::Db { focus, .. } => Some(*focus),
+        _ => None,
+    };
+    let edits = mutate(&mut rng, &bases[base], u.page_blobs, focus);
+    Case { base, raw: None, edits, seed, tag: "mutated_valid" }
+}
+
+fn exec_case(u: &UnitSpec, bases: &[Base], case: &Case, env: &Env, rec: &mut Rec) {
+    let base = &bases[case.base];
+    let blobs = case.materialize(bases);
+    match u.name {
+        "record" => exec_record(rec, base, &blobs, case.seed),
+        "jsonb" => exec_jsonb(rec, base, &blobs, case.seed),
+        "array" => exec_array(rec, base, &blobs, case.seed),
+        "key" => exec_key(rec, &blobs),
+        "varint" => exec_varint(rec, &blobs),
+        "catalog" => exec_catalog(rec, &blobs),
+        "header" => exec_header(rec, base, &blobs),
+        "hnsw" => exec_hnsw(rec, base, &blobs),
+        "leaf" => exec_leaf(rec, base, &blobs),
+        "interior" => exec_interior(rec, base, &blobs),
+        "btree" => exec_tree(rec, base, &blobs, case.seed),
+        "catalog_file" => exec_catalog_file(rec, &blobs, &env.work),
+        "wal_file" => exec_wal(rec, base, &blobs, case.seed, &env.work),
+        "btree_file" => exec_btree_file(rec, base, &blobs, &env.work),
+        "hnsw_file" => exec_hnsw_file(rec, base, &blobs, case.seed, &env.work),
+        "db_nowal" | "db_wal" => {
+            let focus = match &base.meta {
+                Meta::Db { focus, .. } => Some(*focus),
+                _ => None,
+            };
+            exec_db(rec, base, &blobs, case.seed, &env.work, focus)
+        }
+        _ => {}
+    }
+}
+
+/// does the case still raise `sig`? (used by the minimiser; counters are restored by the caller)
+fn still_raises(u: &UnitSpec, bases: &[Base], case: &Case, env: &Env, rec: &mut Rec, sig: &str) -> bool {
+    let saved = std::mem::take(&mut rec.case_sigs);
+    exec_case(u, bases, case, env, rec);
+    let hit = rec.case_sigs.iter().any(|(s, _, _)| s == sig);
+    rec.case_sigs = saved;
+    hit
+}
+
+fn minimize(u: &UnitSpec, bases: &[Base], case: &Case, env: &Env, rec: &mut Rec, sig: &str) -> Case {
+    let snap = (rec.ops, rec.ok, rec.err, rec.panics, rec.case_hash, rec.ctr.clone());
+    let mut cur = case.clone();
+    let mut budget = if u.kind == Kind::Db { 16 } else { 40 };
+    // 1. drop edits
+    let mut i = 0;
+    while cur.edits.len() > 1 && i < cur.edits.len() && budget > 0 {
+        let mut t = cur.clone();
+        t.edits.remove(i);
+        budget -= 1;
+        if still_raises(u, bases, &t, env, rec, sig) {
+            cur = t;
+        } else {
+            i += 1;
+        }
+    }
+    // 2. shorten raw inputs
+    if let Some(raw) = cur.raw.clone() {
+        let mut len = raw.len();
+        while len > 1 && budget > 0 {
+            let nl = len / 2;
+            let mut t = cur.clone();
+            t.raw = Some(raw[..nl].to_vec());
+            budget -= 1;
+            if still_raises(u, bases, &t, env, rec, sig) {
+                cur = t;
+                len = nl;
+            } else {
+                break;
+            }
+        }
+        // trim the tail byte by byte
+        while budget > 0 {
+            let r = cur.raw.clone().unwrap();
+            if r.len() <= 1 {
+                break;
+            }
+            let mut t = cur.clone();
+            t.raw = Some(r[..r.len() - 1].to_vec());
+            budget -= 1;
+            if still_raises(u, bases, &t, env, rec, sig) {
+                cur = t;
+            } else {
+                break;
+            }
+        }
+    }
+    // 3. narrow multi-byte Set edits to the single byte that matters
+    if cur.edits.len() == 1 && budget > 0 {
+        if let Edit::Set { blob, off, bytes } = cur.edits[0].clone() {
+            if bytes.len() > 1 {
+                for k in 0..bytes.len() {
+                    if budget == 0 {
+                        break;
+                    }
+                    let mut t = cur.clone();
+                    t.edits = vec![Edit::Set { blob, off: off + k, bytes: vec![bytes[k]] }];
+                    budget -= 1;
+                    if still_raises(u, bases, &t, env, rec, sig) {
+                        cur = t;
+                        break;
+                    }
+                }
+            }
+        }
+    }
+    rec.ops = snap.0;
+    rec.ok = snap.1;
+    rec.err = snap.2;
+    rec.panics = snap.3;
+    rec.case_hash = snap.4;
+    rec.ctr = snap.5;
+    cur
+}
+
+fn now_ms() -> u64 {
+    std::time::SystemTime::now().duration_since(std::time::UNIX_EPOCH).map(|d| d.as_millis() as u64).unwrap_or(0)
+}
+
+/// run cases [start, start+count) of one unit; returns the number executed
+fn run_cases(u: &UnitSpec, env: &Env, start: u64, count: u64, deadline_ms: u64, rec: &mut Rec) -> u64 {
+    if let Some(bb) = &rec.bb {
+        bb.op("setup");
+    }
+    let bases = build_bases(u, env);
+    if bases.is_empty() {
+        rec.emit(json!({"t": "nobase"}));
+        return 0;
+    }
+    let mut done = 0u64;
+    for idx in start..start + count {
+        if deadline_ms > 0 && idx % 16 == 0 && !cfg!(miri) && now_ms() > deadline_ms {
+            break;
+        }
+        let case = gen_case(u, &bases, env, idx);
+        rec.begin_case(idx);
+        exec_case(u, &bases, &case, env, rec);
+        rec.evals += 1;
+        done += 1;
+        // structural hash: which mutation classes met which outcome vector
+        let mut kh = fnv(case.tag.as_bytes());
+        for e in &case.edits {
+            kh ^= fnv(e.kind().as_bytes()).rotate_left(3);
+        }
+        let h = fnv(u.name.as_bytes()) ^ kh.rotate_left(11) ^ rec.case_hash;
+        if rec.seen_nt.len() < 200_000 && rec.seen_nt.insert(h) {
+            rec.new_nt.push(h);
+        }
+        let sigs = std::mem::take(&mut rec.case_sigs);
+        for (sig, assertion, detail) in sigs {
+            *rec.sig_delta.entry(sig.clone()).or_insert(0) += 1;
+            let n = rec.sig_examples.entry(sig.clone()).or_insert(0);
+            *n += 1;
+            if *n <= 2 {
+                let first = *n == 1;
+                let mut d = case.describe(u.name, idx, &bases, env.seed, &env.tier);
+                d["observed"] = detail.clone();
+                rec.emit(json!({"t": "v", "sig": sig, "assertion": assertion, "detail": d}));
+                if first && !cfg!(miri) {
+                    let m = minimize(u, &bases, &case, env, rec, &sig);
+                    let mut d = m.describe(u.name, idx, &bases, env.seed, &env.tier);
+                    d["observed"] = detail;
+                    d["note"] = json!("minimised: edits dropped / input shortened while the same signature is raised (replay command reproduces the unminimised case)");
+                    rec.emit(json!({"t": "min", "sig": sig, "detail": d}));
+                }
+            }
+        }
+        if let Some(bb) = &rec.bb {
+            bb.finished(done);
+        }
+        if done % (if u.kind == Kind::Mem { 512 } else { 32 }) == 0 {
+            rec.flush_progress();
+            if let Some(bb) = &rec.bb {
+                bb.flushed(done);
+            }
+        }
+    }
+    rec.flush_progress();
+    rec.emit(json!({"t": "done", "executed": done}));
+    done
+}
+
+// ------------------------------------------------------------------------------------------
+// child process
+// ------------------------------------------------------------------------------------------
+#[cfg(not(miri))]
+fn limit_address_space(bytes: u64) {
+    unsafe {
+        let lim = libc::rlimit { rlim_cur: bytes as libc::rlim_t, rlim_max: bytes as libc::rlim_t };
+        libc::setrlimit(libc::RLIMIT_AS, &lim);
+        // no core files for the deaths we provoke
+        let z = libc::rlimit { rlim_cur: 0, rlim_max: 0 };
+        libc::setrlimit(libc::RLIMIT_CORE, &z);
+    }
+}
+#[cfg(miri)]
+fn limit_address_space(_bytes: u64) {}
+
+const CHILD_AS_LIMIT: u64 = 4 << 30;
+const CHILD_STACK: usize = 8 << 20;
+
+/// args: child <unit> <start> <count> <jobdir> [<dbroot>] [<deadline_ms>]
+fn child_main(a: &Args) -> i32 {
+    // eyre captures (and, when an error is Debug-formatted, symbolises) a backtrace per error if
+    // these are set: orders of magnitude slower and unrelated to the property
+    std::env::set_var("RUST_BACKTRACE", "0");
+    std::env::set_var("RUST_LIB_BACKTRACE", "0");
+    let r = &a.rest;
+    if r.len() < 5 {
+        eprintln!("usage: tv C23 child <unit> <start> <count> <jobdir> [<dbroot>] [<deadline_ms>]");
+        return 2;
+    }
+    let u = match unit_spec(&r[1]) {
+        Some(u) => u,
+        None => {
+            eprintln!("unknown unit {}", r[1]);
+            return 2;
+        }
+    };
+    let start: u64 = r[2].parse().expect("start");
+    let count: u64 = r[3].parse().expect("count");
+    let jobdir = PathBuf::from(&r[4]);
+    let dbroot = r.get(5).map(PathBuf::from).unwrap_or_else(|| jobdir.clone());
+    let deadline: u64 = r.get(6).and_then(|s| s.parse().ok()).unwrap_or(0);
+    let _ = std::fs::create_dir_all(jobdir.join("work"));
+    let standalone = r.get(5).is_none();
+    if standalone && u.kind == Kind::Db {
+        // replay outside a parent run: build the base images here
+        let _ = create_db_base(&dbroot, false);
+        let _ = create_db_base(&dbroot, true);
+    }
+    limit_address_space(CHILD_AS_LIMIT);
+    #[cfg(not(miri))]
+    {
+        // do not outlive the parent (a hung case would otherwise spin forever if the parent is killed)
+        let ppid = unsafe { libc::getppid() };
+        std::thread::spawn(move || loop {
+            std::thread::sleep(std::time::Duration::from_millis(500));
+            if unsafe { libc::getppid() } != ppid {
+                std::process::exit(3);
+            }
+        });
+    }
+    let bb = BlackBox::open(&jobdir.join("bb"));
+    let out = std::fs::OpenOptions::new().create(true).append(true).open(jobdir.join("res.jsonl")).expect("result file");
+    let env = Env { work: jobdir.join("work"), dbroot, small: a.tier == "quick", base_seed: base_seed(a.seed), seed: a.seed, tier: a.tier.clone() };
+    let unit_name = u.name;
+    let h = std::thread::Builder::new()
+        .stack_size(CHILD_STACK)
+        .name("c23-cases".into())
+        .spawn(move || {
+            let mut rec = Rec::new(unit_name, bb, Some(out));
+            run_cases(u, &env, start, count, deadline, &mut rec)
+        })
+        .expect("spawn worker");
+    let done = h.join().unwrap_or(0);
+    if standalone {
+        if let Ok(s) = std::fs::read_to_string(jobdir.join("res.jsonl")) {
+            for l in s.lines() {
+                if l.starts_with("{\"t\":\"v\"") || l.contains("\"t\":\"v\"") || l.contains("\"t\":\"min\"") {
+                    println!("{}", l);
+                }
+            }
+        }
+        println!("child: unit={} start={} executed={}", unit_name, start, done);
+    }
+    0
+}
+
+// ------------------------------------------------------------------------------------------
+// aggregation (parent side and in-process mode)
+// ------------------------------------------------------------------------------------------
+#[derive(Default)]
+struct SigAgg {
+    count: u64,
+    assertion: String,
+    examples: Vec<Value>,
+    minimized: Option<Value>,
+    units: Vec<String>,
+}
+
+#[derive(Default, Clone)]
+struct UnitAgg {
+    cases: u64,
+    ops: u64,
+    ok: u64,
+    err: u64,
+    panics: u64,
+    deaths: u64,
+    hangs: u64,
+    skipped: u64,
+    planned: u64,
+}
+
+struct Agg {
+    sigs: BTreeMap<String, SigAgg>,
+    units: BTreeMap<String, UnitAgg>,
+}
+
+impl Agg {
+    fn new() -> Agg {
+        Agg { sigs: BTreeMap::new(), units: BTreeMap::new() }
+    }
+    fn add_sig(&mut self, unit: &str, sig: &str, assertion: &str, n: u64, example: Option<Value>) {
+        let s = self.sigs.entry(sig.to_string()).or_default();
+        s.count += n;
+        if s.assertion.is_empty() {
+            s.assertion = assertion.to_string();
+        }
+        if !s.units.iter().any(|x| x == unit) {
+            s.units.push(unit.to_string());
+        }
+        if let Some(e) = example {
+            if s.examples.len() < 2 {
+                s.examples.push(e);
+            }
+        }
+    }
+    /// returns true if a "done" line was seen
+    fn merge_lines<'a>(&mut self, unit: &str, lines: impl Iterator<Item = &'a str>, ctx: &mut Ctx) -> bool {
+        let mut done = false;
+        for l in lines {
+            let v: Value = match serde_json::from_str(l) {
+                Ok(v) => v,
+                Err(_) => continue, // torn last line of a dead child
+            };
+            match v["t"].as_str().unwrap_or("") {
+                "p" => {
+                    let ua = self.units.entry(unit.to_string()).or_default();
+                    let e = v["evals"].as_u64().unwrap_or(0);
+                    ua.cases += e;
+                    ua.ops += v["ops"].as_u64().unwrap_or(0);
+                    ua.ok += v["ok"].as_u64().unwrap_or(0);
+                    ua.err += v["err"].as_u64().unwrap_or(0);
+                    ua.panics += v["panics"].as_u64().unwrap_or(0);
+                    ctx.evals(e);
+                    if let Some(a) = v["nt"].as_array() {
+                        for h in a {
+                            if let Some(h) = h.as_u64() {
+                                ctx.nontrivial(h);
+                            }
+                        }
+                    }
+                    if let Some(m) = v["sigc"].as_object() {
+                        for (sig, n) in m {
+                            self.add_sig(unit, sig, "", n.as_u64().unwrap_or(0), None);
+                        }
+                    }
+                    if let Some(m) = v["ctr"].as_object() {
+                        for (k, n) in m {
+                            ctx.count(k, n.as_u64().unwrap_or(0));
+                        }
+                    }
+                }
+                "v" => {
+                    let sig = v["sig"].as_str().unwrap_or("").to_string();
+                    let asr = v["assertion"].as_str().unwrap_or("").to_string();
+                    self.add_sig(unit, &sig, &asr, 0, Some(v["detail"].clone()));
+                    if let Some(s) = self.sigs.get_mut(&sig) {
+                        if s.assertion.is_empty() {
+                            s.assertion = asr;
+                        }
+                    }
+                }
+                "min" => {
+                    let sig = v["sig"].as_str().unwrap_or("").to_string();
+                    let s = self.sigs.entry(sig).or_default();
+                    if s.minimized.is_none() {
+                        s.minimized = Some(v["detail"].clone());
+                    }
+                }
+                "done" => done = true,
+                _ => {}
+            }
+        }
+        done
+    }
+    fn finish(self, ctx: &mut Ctx) {
+        let mut all = vec![];
+        let mut sigmap = serde_json::Map::new();
+        for (sig, s) in &self.sigs {
+            let count = s.count.max(s.examples.len() as u64).max(1);
+            sigmap.insert(sig.clone(), json!(count));
+            let assertion = if s.assertion.is_empty() { "no_panic".to_string() } else { s.assertion.clone() };
+            let detail = json!({"occurrences": count, "units": s.units, "minimized": s.minimized, "examples": s.examples});
+            all.push(json!({"sig": sig, "assertion": assertion, "detail": detail.clone()}));
+            let known = ctx.is_known(sig).map(|f| f.id.clone());
+            let unexplained = ctx.violation(&assertion, sig, detail);
+            if !unexplained {
+                if let Some(id) = known {
+                    *ctx.known_hits.entry(id).or_insert(0) += count - 1;
+                }
+            }
+        }
+        ctx.count("distinct_signatures", self.sigs.len() as u64);
+        ctx.extra.insert("signatures".into(), Value::Object(sigmap));
+        let mut um = serde_json::Map::new();
+        for (u, a) in &self.units {
+            um.insert(u.clone(), json!({"planned": a.planned, "cases": a.cases, "decoder_calls": a.ops, "ok": a.ok, "err": a.err, "panics": a.panics, "process_deaths": a.deaths, "hangs": a.hangs, "cases_not_run": a.skipped}));
+        }
+        ctx.extra.insert("per_unit".into(), Value::Object(um));
+        if !all.is_empty() {
+            let dir = format!("{}/replay/{}", report::VERIF_DIR, ctx.prop);
+            let _ = std::fs::create_dir_all(&dir);
+            let path = format!("{}/{}-seed{}-all-signatures.json", dir, ctx.tier, ctx.seed);
+            let _ = std::fs::write(&path, serde_json::to_string_pretty(&Value::Array(all)).unwrap());
+            ctx.extra.insert("all_signatures_file".into(), json!(path));
+        }
+    }
+}
+
+// ------------------------------------------------------------------------------------------
+// parent: schedules jobs over child processes, watches black boxes, attributes deaths and hangs
+// ------------------------------------------------------------------------------------------
+struct Job {
+    unit: &'static UnitSpec,
+    start: u64,
+    end: u64,
+    restarts: u32,
+}
+
+#[cfg(not(miri))]
+struct Running {
+    job: Job,
+    child: std::process::Child,
+    dir: PathBuf,
+    last: (u64, u64),
+    last_change: std::time::Instant,
+}
+
+fn classify_death(status: &std::process::ExitStatus, stderr: &str) -> String {
+    use std::os::unix::process::ExitStatusExt;
+    if stderr.contains("memory allocation of") || stderr.contains("capacity overflow") && stderr.contains("abort") {
+        return "alloc_abort".into();
+    }
+    if stderr.contains("has overflowed its stack") || stderr.contains("stack overflow") {
+        return "stack_overflow".into();
+    }
+    if stderr.contains("panic in a function that cannot unwind") || stderr.contains("panicked while processing panic") || stderr.contains("panic in a destructor") {
+        return "double_panic_abort".into();
+    }
+    match status.signal() {
+        Some(6) => "abort/SIGABRT".into(),
+        Some(11) => "abort/SIGSEGV".into(),
+        Some(7) => "abort/SIGBUS".into(),
+        Some(4) => "abort/SIGILL".into(),
+        Some(9) => "abort/SIGKILL".into(),
+        Some(s) => format!("abort/signal{}", s),
+        None => format!("exit/{}", status.code().unwrap_or(-1)),
+    }
+}
+
+#[cfg(not(miri))]
+fn parent_main(a: &Args) -> i32 {
+    use std::process::{Command, Stdio};
+    use std::time::{Duration, Instant};
+    let mut ctx = Ctx::new(
+        "C23",
+        &a.tier,
+        a.seed,
+        "exploration",
+        "per decoder: valid encodings from the real encoders, mutated (structural-field edits with boundary values, bit flips, random bytes, 0x00/0xFF runs, truncation, appends, splices; 1-3 edits) + raw random bytes + crafted deep nesting (keys); database level: every file of a valid database (WAL off, closed; WAL on, crash image) corrupted the same way, then open + scans + index/pk lookups + kNN + insert/update/delete + close. distinct_nontrivial = distinct (unit, mutation classes, per-call outcome vector Ok/Err/panic) hashes",
+    );
+    std::env::set_var("RUST_BACKTRACE", "0");
+    std::env::set_var("RUST_LIB_BACKTRACE", "0");
+    let quick = ctx.quick();
+    let t0 = Instant::now();
+    let budget_s: u64 = std::env::var("TV_C23_BUDGET_S").ok().and_then(|s| s.parse().ok()).unwrap_or(if quick { 50 } else { 600 });
+    let deadline = t0 + Duration::from_secs(budget_s);
+    let deadline_ms = now_ms() + budget_s * 1000;
+    let root = PathBuf::from(format!("{}/scratch/c23-{}", report::VERIF_DIR, std::process::id()));
+    fresh_dir(&root);
+    let exe = std::env::current_exe().expect("current_exe");
+    let only: Option<Vec<String>> = std::env::var("TV_C23_UNITS").ok().map(|s| s.split(',').map(|x| x.to_string()).collect());
+    let scale: f64 = std::env::var("TV_C23_SCALE").ok().and_then(|s| s.parse().ok()).unwrap_or(1.0);
+
+    // valid databases
+    let mut db_ok = true;
+    let tdb = Instant::now();
+    for wal in [false, true] {
+        match create_db_base(&root, wal) {
+            Ok(dir) => {
+                // baseline: the uncorrupted image must open and scan
+                let work = root.join("baseline");
+                fresh_dir(&work);
+                let _ = copy_dir(&dir, &work.join("db"));
+                let r = guard(|| -> Result<(usize, usize, usize), String> {
+                    let db = Database::open(work.join("db")).map_err(|e| format!("open: {e}"))?;
+                    let a = db.query("SELECT * FROM t1").map_err(|e| format!("t1: {e}"))?.len();
+                    let b = db.query("SELECT * FROM emb").map_err(|e| format!("emb: {e}"))?.len();
+                    let c = db.query("SELECT id FROM t1 WHERE n = 3").map_err(|e| format!("idx: {e}"))?.len();
+                    let _ = db.close();
+                    Ok((a, b, c))
+                });
+                let files = read_dir_blobs(&dir);
+                ctx.extra.insert(
+                    format!("db_base_{}", if wal { "wal" } else { "nowal" }),
+                    json!({"files": files.iter().map(|b| format!("{} ({} B)", b.name, b.data.len())).collect::<Vec<_>>(), "baseline_rows_t1_emb_idx": format!("{:?}", r)}),
+                );
+                if !matches!(r, Ok(Ok(_))) {
+                    ctx.inconclusive(&format!("baseline database image (wal={}) does not open/scan cleanly: {:?}", wal, r));
+                    db_ok = false;
+                }
+            }
+            Err(e) => {
+                ctx.inconclusive(&format!("could not build the valid database (wal={}): {}", wal, e));
+                db_ok = false;
+            }
+        }
+    }
+
+    ctx.extra.insert("db_base_build_s".into(), json!(tdb.elapsed().as_secs_f64()));
+    let mut agg = Agg::new();
+    let mut queue: std::collections::VecDeque<Job> = Default::default();
+    // interleave units so that every unit gets lanes early
+    let mut per_unit: Vec<Vec<Job>> = vec![];
+    for u in UNITS {
+        if let Some(o) = &only {
+            if !o.iter().any(|x| x == u.name) {
+                continue;
+            }
+        }
+        if u.kind == Kind::Db && !db_ok {
+            continue;
+        }
+        let total = ((if quick { u.quick } else { u.thorough }) as f64 * scale) as u64;
+        let chunk = if quick { u.chunk_quick } else { u.chunk_thorough };
+        agg.units.entry(u.name.to_string()).or_default().planned = total;
+        let mut v = vec![];
+        let mut s = 0;
+        while s < total {
+            let e = (s + chunk).min(total);
+            v.push(Job { unit: u, start: s, end: e, restarts: 0 });
+            s = e;
+        }
+        per_unit.push(v);
+    }
+    // slow units first
+    per_unit.reverse();
+    loop {
+        let mut any = false;
+        for v in per_unit.iter_mut() {
+            if !v.is_empty() {
+                queue.push_back(v.remove(0));
+                any = true;
+            }
+        }
+        if !any {
+            break;
+        }
+    }
+    let ncpu = std::thread::available_parallelism().map(|n| n.get()).unwrap_or(4);
+    let lanes: usize = std::env::var("TV_C23_LANES").ok().and_then(|s| s.parse().ok()).unwrap_or_else(|| ncpu.saturating_sub(2).clamp(2, 12));
+    let max_restarts: u32 = if quick { 12 } else { 60 };
+    let hang_of = |u: &UnitSpec| if quick { u.hang_q } else { u.hang_t };
+    let mut running: Vec<Running> = vec![];
+    let mut jobno = 0u64;
+    // lazily built bases for describing cases of dead children
+    let penv = Env { work: root.join("parent-work"), dbroot: root.clone(), small: quick, base_seed: base_seed(a.seed), seed: a.seed, tier: a.tier.clone() };
+    fresh_dir(&penv.work);
+    let mut pbases: HashMap<&'static str, Vec<Base>> = HashMap::new();
+    let mut describe = |u: &'static UnitSpec, idx: u64, pbases: &mut HashMap<&'static str, Vec<Base>>| -> Value {
+        let r = guard(|| {
+            if !pbases.contains_key(u.name) {
+                let b = build_bases(u, &penv);
+                pbases.insert(u.name, b);
+            }
+            let bases = &pbases[u.name];
+            let c = gen_case(u, bases, &penv, idx);
+            c.describe(u.name, idx, bases, penv.seed, &penv.tier)
+        });
+        r.unwrap_or_else(|e| json!({"unit": u.name, "case": idx, "describe_failed": e.1}))
+    };
+
+    loop {
+        let now = Instant::now();
+        let expired = now >= deadline;
+        while !expired && running.len() < lanes {
+            let job = match queue.pop_front() {
+                Some(j) => j,
+                None => break,
+            };
+            jobno += 1;
+            let dir = root.join(format!("job-{}", jobno));
+            fresh_dir(&dir);
+            let errf = std::fs::File::create(dir.join("stderr.txt")).expect("stderr file");
+            let child = Command::new(&exe)
+                .arg("C23")
+                .arg("--tier")
+                .arg(&a.tier)
+                .arg("--seed")
+                .arg(a.seed.to_string())
+                .arg("child")
+                .arg(job.unit.name)
+                .arg(job.start.to_string())
+                .arg((job.end - job.start).to_string())
+                .arg(&dir)
+                .arg(&root)
+                .arg(deadline_ms.to_string())
+                .env("RUST_BACKTRACE", "0")
+                .env("RUST_LIB_BACKTRACE", "0")
+                .stdin(Stdio::null())
+                .stdout(Stdio::null())
+                .stderr(Stdio::from(errf))
+                .spawn()
+                .expect("spawn child");
+            running.push(Running { job, child, dir, last: (u64::MAX, u64::MAX), last_change: Instant::now() });
+        }
+        if running.is_empty() && (queue.is_empty() || expired) {
+            break;
+        }
+        let mut i = 0;
+        while i < running.len() {
+            let mut finished: Option<(Option<std::process::ExitStatus>, bool)> = None; // (status, killed_for_hang)
+            match running[i].child.try_wait() {
+                Ok(Some(st)) => finished = Some((Some(st), false)),
+                Ok(None) => {
+                    let bb = read_blackbox(&running[i].dir.join("bb"));
+                    let cur = bb.as_ref().map(|b| (b.0, b.1)).unwrap_or((u64::MAX, 0));
+                    if cur != running[i].last {
+                        running[i].last = cur;
+                        running[i].last_change = Instant::now();
+                    }
+                    let lab = bb.as_ref().map(|b| b.3.clone()).unwrap_or_default();
+                    // base construction (valid inputs) may legitimately take a while
+                    let symbolizing = bb.as_ref().map(|b| b.4).unwrap_or(false);
+                    let limit = if lab == "setup" || lab.is_empty() || symbolizing { 90 } else { hang_of(running[i].job.unit) };
+                    if running[i].last_change.elapsed() > Duration::from_secs(limit) {
+                        let _ = running[i].child.kill();
+                        let st = running[i].child.wait().ok();
+                        finished = Some((st, true));
+                    } else if expired && now > deadline + Duration::from_secs(3) {
+                        // out of budget: stop the child; what it did so far is merged, the rest counted as not run
+                        let _ = running[i].child.kill();
+                        let _ = running[i].child.wait();
+                        let r = running.swap_remove(i);
+                        let txt = std::fs::read_to_string(r.dir.join("res.jsonl")).unwrap_or_default();
+                        agg.merge_lines(r.job.unit.name, txt.lines(), &mut ctx);
+                        let fin = read_blackbox(&r.dir.join("bb")).map(|b| b.2).unwrap_or(0);
+                        agg.units.entry(r.job.unit.name.to_string()).or_default().skipped += (r.job.end - r.job.start).saturating_sub(fin);
+                        let _ = std::fs::remove_dir_all(&r.dir);
+                        continue;
+                    }
+                }
+                Err(_) => finished = Some((None, false)),
+            }
+            if let Some((status, hung)) = finished {
+                let r = running.swap_remove(i);
+                let uname = r.job.unit.name;
+                let txt = std::fs::read_to_string(r.dir.join("res.jsonl")).unwrap_or_default();
+                let done = agg.merge_lines(uname, txt.lines(), &mut ctx);
+                if !done {
+                    let bb = read_blackbox(&r.dir.join("bb"));
+                    let (idx, _, fin, label, _, flushed) = bb.unwrap_or((r.job.start, 0, 0, "setup".into(), false, 0));
+                    let stderr = std::fs::read_to_string(r.dir.join("stderr.txt")).unwrap_or_default();
+                    let ua = agg.units.entry(uname.to_string()).or_default();
+                    if label == "setup" || label.is_empty() {
+                        ua.skipped += r.job.end - r.job.start;
+                        ctx.inconclusive(&format!("unit {} child died/hung during setup (valid-input construction): {}", uname, stderr.lines().last().unwrap_or("")));
+                    } else {
+                        // cases before idx in this job were executed but the tail of their counters may be lost (flushed every 512)
+                        let class = if hung { "hang".to_string() } else { status.as_ref().map(|s| classify_death(s, &stderr)).unwrap_or_else(|| "abort/unknown".into()) };
+                        if hung {
+                            ua.hangs += 1;
+                        } else {
+                            ua.deaths += 1;
+                        }
+                        let lost = fin.saturating_sub(flushed);
+                        ua.cases += lost + 1;
+                        ctx.evals(lost + 1);
+                        let sig = format!("C23/{}/{}", label, class);
+                        let mut d = describe(r.job.unit, idx, &mut pbases);
+                        d["observed"] = json!({"op": label, "outcome": class, "hang_limit_s": if hung { json!(hang_of(r.job.unit)) } else { Value::Null }, "stderr_tail": stderr.lines().rev().take(4).collect::<Vec<_>>(), "child_stack_bytes": CHILD_STACK, "child_rlimit_as": CHILD_AS_LIMIT});
+                        let assertion = if hung { "terminates" } else { "no_abort" };
+                        agg.add_sig(uname, &sig, assertion, 1, Some(d));
+                        ctx.nontrivial(fnv(sig.as_bytes()) ^ idx);
+                        let next = idx + 1;
+                        if next < r.job.end {
+                            if r.job.restarts < max_restarts {
+                                queue.push_front(Job { unit: r.job.unit, start: next, end: r.job.end, restarts: r.job.restarts + 1 });
+                            } else {
+                                agg.units.entry(uname.to_string()).or_default().skipped += r.job.end - next;
+                                ctx.count("jobs_abandoned_after_repeated_deaths", 1);
+                            }
+                        }
+                    }
+                } else {
+                    // executed fewer than planned because of the deadline?
+                    let fin = read_blackbox(&r.dir.join("bb")).map(|b| b.2).unwrap_or(0);
+                    let planned = r.job.end - r.job.start;
+                    if fin < planned {
+                        agg.units.entry(uname.to_string()).or_default().skipped += planned - fin;
+                    }
+                }
+                let _ = std::fs::remove_dir_all(&r.dir);
+                continue;
+            }
+            i += 1;
+        }
+        std::thread::sleep(Duration::from_millis(15));
+    }
+    for j in queue.iter() {
+        agg.units.entry(j.unit.name.to_string()).or_default().skipped += j.end - j.start;
+    }
+    let not_run: u64 = agg.units.values().map(|u| u.skipped).sum();
+    ctx.count("cases_planned_but_not_run", not_run);
+    ctx.count("child_processes", jobno);
+    ctx.extra.insert("lanes".into(), json!(lanes));
+    ctx.extra.insert("budget_s".into(), json!(budget_s));
+    for (u, ua) in agg.units.iter() {
+        if ua.planned > 0 && ua.cases == 0 {
+            ctx.inconclusive(&format!("unit {} executed no case", u));
+        }
+    }
+    ctx.assumptions.push("children run cases on a thread with an 8 MiB stack under RLIMIT_AS = 4 GiB; a stack overflow or allocation failure under these limits is reported as a violation".into());
+    ctx.assumptions.push("a hang is declared when the (case, op) heartbeat of a child does not change for 5/6/10 s (quick: in-memory / file / database level) or 8/10/20 s (thorough)".into());
+    ctx.assumptions.push("overflow-checks are on in this build profile: arithmetic overflow on decoded fields panics here and would wrap in a release build".into());
+    ctx.exhaustive = Some(false);
+    ctx.sample(json!({"unit": "record", "example_case": describe(unit_spec("record").unwrap(), 1, &mut pbases)}));
+    ctx.sample(json!({"unit": "btree", "example_case": describe(unit_spec("btree").unwrap(), 1, &mut pbases)}));
+    if db_ok {
+        ctx.sample(json!({"unit": "db_nowal", "example_case": describe(unit_spec("db_nowal").unwrap(), 1, &mut pbases)}));
+    }
+    agg.finish(&mut ctx);
+    let _ = std::fs::remove_dir_all(&root);
+    ctx.finish()
+}
+
+// ------------------------------------------------------------------------------------------
+// in-process mode (Miri): in-memory units only, small volume, no files, no processes
+// ------------------------------------------------------------------------------------------
+fn inproc_main(a: &Args) -> i32 {
+    let mut ctx = Ctx::new(
+        "C23",
+        &a.tier,
+        a.seed,
+        "exploration",
+        "in-process (Miri) mode: in-memory decoders only, ~100 mutated/random inputs each; the interpreter is the monitor for out-of-bounds/unaligned reads in unsafe paths (RecordView::get_vector, simd_scan)",
+    );
+    let n: u64 = std::env::var("TV_C23_MIRI_CASES").ok().and_then(|s| s.parse().ok()).unwrap_or(100);
+    let env = Env { work: PathBuf::from("/nonexistent"), dbroot: PathBuf::from("/nonexistent"), small: true, base_seed: base_seed(a.seed), seed: a.seed, tier: a.tier.clone() };
+    let mut agg = Agg::new();
+    for u in UNITS.iter().filter(|u| u.kind == Kind::Mem) {
+        let mut rec = Rec::new(u.name, None, None);
+        let cnt = if u.name == "btree" { n / 4 + 1 } else { n };
+        agg.units.entry(u.name.to_string()).or_default().planned = cnt;
+        run_cases(u, &env, 0, cnt, 0, &mut rec);
+        let lines = std::mem::take(&mut rec.lines);
+        agg.merge_lines(u.name, lines.iter().map(|s| s.as_str()), &mut ctx);
+    }
+    ctx.exhaustive = Some(false);
+    ctx.sample(json!({"mode": "in-process", "cases_per_unit": n}));
+    agg.finish(&mut ctx);
+    ctx.finish()
+}
+
+pub fn run(a: &Args) -> i32 {
+    if a.rest.first().map(|s| s.as_str()) == Some("child") {
+        return child_main(a);
+    }
+    #[cfg(miri)]
+    {
+        return inproc_main(a);
+    }
+    #[cfg(not(miri))]
+    {
+        if std::env::var("TV_C23_INPROC").is_ok() {
+            return inproc_main(a);
+        }
+        parent_main(a)
+    }
 }
